@@ -1,84 +1,80 @@
-(** C11, second part: the clock does not matter as long as nothing expires.
-    [sim d1 d2]: the same keys in the same order, equal values, TTL present on both sides or
-    on neither (deadlines and the sweeper's index may differ).  Every command of the
-    string/key family, the list/set/hash family, XADD / XDEL / XTRIM, and every read, run at two
-    different clock readings on [sim]-related databases without expired entries, yields
-    [sim]-related databases: so a redo at ANY later time restores values and TTL presence.
-    Outside this part: the consumer-group commands (they stamp the clock into pending entries),
-    the sorted-set writes and scripts (their per-handler proofs are not done here; they are
-    covered by the one-clock theorem of Proofs/AofFacts.v). *)
+(** C11, second part: the redo at ANY later clock reading.
+    [sim d1 d2]: every lookup gives the same entry - value AND deadline - in both databases
+    (the order of the keys, a HashMap order in the implementation, and the sweeper's index are
+    left out).  A deadline is in the file as an absolute time (PEXPIREAT, 98d0d1a), a random or
+    clock-dependent outcome as the deterministic command it amounted to (f085462): the records
+    of every command of the string/key family, the list/set/hash family, XADD / XDEL / XTRIM
+    and every read, redone at a later clock reading on a [sim]-related database, yield
+    [sim]-related databases - PROVIDED no deadline of the live run has passed by the time of
+    the redo.  Outside this part: the consumer-group commands (they stamp the clock into pending
+    entries), the sorted-set writes and scripts (their per-handler proofs are not done here; they
+    are covered by the one-clock theorem of Proofs/AofFacts.v). *)
 From Ferrous Require Import Base.Bytes Generated Model.Resp Model.Types Model.Glob Model.Strings
-  Model.Lists Model.ZSets Model.Streams Model.Scan Model.Lua Model.Server Model.Conn Model.Aof
-  Proofs.BytesFacts Proofs.StringsFacts Proofs.ListsFacts Proofs.ServerFacts Proofs.AofFacts.
+  Model.Lists Model.ZSets Model.Streams Model.Scan Model.Lua Model.Server Model.Conn Model.Blocking Model.RunLua Model.Aof
+  Proofs.BytesFacts Proofs.StringsFacts Proofs.ListsFacts Proofs.ServerFacts Proofs.StreamFacts Proofs.AofFacts.
 From Coq Require Import ZifyBool.
 Open Scope Z_scope.
 
-Definition sim_e (e1 e2 : entry) : Prop := e_val e1 = e_val e2 /\ has_ttl e1 = has_ttl e2.
-Definition sim_kv (a b : bytes * entry) : Prop := fst a = fst b /\ sim_e (snd a) (snd b).
-Definition sim (d1 d2 : db) : Prop := Forall2 sim_kv (d_data d1) (d_data d2).
-
-Lemma sim_e_refl e : sim_e e e. Proof. split; reflexivity. Qed.
-Lemma sim_refl d : sim d d.
-Proof. unfold sim. induction (d_data d) as [|a l IH]; constructor; [split; [reflexivity|apply sim_e_refl]|exact IH]. Qed.
-Lemma sim_empty : sim empty_db empty_db. Proof. constructor. Qed.
-
-(** what the property compares is equal on [sim]-related databases *)
-Lemma sim_dataset d1 d2 : sim d1 d2 -> dataset d1 = dataset d2.
-Proof.
-  unfold sim, dataset. induction 1 as [|[k1 e1] [k2 e2] l1 l2 [Hk [Hv Ht]] _ IH]; [reflexivity|].
-  cbn [map fst snd] in *. subst. rewrite Hv, Ht, IH. reflexivity.
-Qed.
-
+Definition sim_e (e1 e2 : entry) : Prop := e_val e1 = e_val e2 /\ e_exp e1 = e_exp e2.
 Definition orel {A} (R : A -> A -> Prop) (a b : option A) : Prop :=
   match a, b with Some x, Some y => R x y | None, None => True | _, _ => False end.
+Definition sim (d1 d2 : db) : Prop := forall k, orel sim_e (get_entry d1 k) (get_entry d2 k).
+
+Lemma sim_e_refl e : sim_e e e. Proof. split; reflexivity. Qed.
+Lemma sim_e_eq e1 e2 : sim_e e1 e2 -> e1 = e2.
+Proof. destruct e1 as [v1 x1], e2 as [v2 x2]. unfold sim_e. cbn [e_val e_exp]. intros [H1 H2]. subst. reflexivity. Qed.
+Lemma sim_refl d : sim d d.
+Proof. intros k. destruct (get_entry d k); cbn; [apply sim_e_refl|exact I]. Qed.
+Lemma sim_empty : sim empty_db empty_db. Proof. apply sim_refl. Qed.
+(** [sim] is lookup-equivalence *)
+Lemma sim_ext d1 d2 : sim d1 d2 <-> ext d1 d2.
+Proof.
+  split; intros H k; specialize (H k).
+  - destruct (get_entry d1 k), (get_entry d2 k); cbn [orel] in H; try contradiction; [f_equal; apply sim_e_eq; exact H|reflexivity].
+  - rewrite H. destruct (get_entry d2 k); cbn; [apply sim_e_refl|exact I].
+Qed.
+Lemma sim_sym d1 d2 : sim d1 d2 -> sim d2 d1.
+Proof. rewrite !sim_ext. apply ext_sym. Qed.
+Lemma sim_trans a b c : sim a b -> sim b c -> sim a c.
+Proof. rewrite !sim_ext. apply ext_trans. Qed.
 
 Lemma sim_lookup d1 d2 k : sim d1 d2 -> orel sim_e (get_entry d1 k) (get_entry d2 k).
-Proof.
-  unfold sim, get_entry. induction 1 as [|[k1 e1] [k2 e2] l1 l2 [Hk He] _ IH]; cbn [alookup orel]; [exact I|].
-  cbn [fst snd] in *. subst k2. destruct (beq k k1); [exact He|exact IH].
-Qed.
-Lemma sim_aremove k l1 l2 : Forall2 sim_kv l1 l2 -> Forall2 sim_kv (aremove k l1) (aremove k l2).
-Proof.
-  induction 1 as [|[k1 e1] [k2 e2] l1 l2 [Hk He] _ IH]; cbn [aremove]; [constructor|].
-  cbn [fst snd] in *. subst k2. destruct (beq k k1); [exact IH|]. constructor; [split; [reflexivity|exact He]|exact IH].
-Qed.
+Proof. intros H. exact (H k). Qed.
 Lemma sim_put d1 d2 k e1 e2 : sim d1 d2 -> sim_e e1 e2 -> sim (put_entry d1 k e1) (put_entry d2 k e2).
 Proof.
-  unfold sim, put_entry, aset. cbn [d_data]. intros H He.
-  constructor; [split; [reflexivity|exact He]|apply sim_aremove; exact H].
+  intros H He k'. destruct (beq k' k) eqn:E.
+  - apply beq_eq in E. subst. rewrite !get_entry_put_same. exact He.
+  - rewrite !get_entry_put_other by exact E. apply H.
 Qed.
 Lemma sim_del d1 d2 k : sim d1 d2 -> sim (del_entry d1 k) (del_entry d2 k).
-Proof. unfold sim, del_entry. cbn [d_data]. apply sim_aremove. Qed.
+Proof.
+  intros H k'. destruct (beq k' k) eqn:E.
+  - apply beq_eq in E. subst. rewrite !get_entry_del_same. exact I.
+  - rewrite !get_entry_del_other by exact E. apply H.
+Qed.
 Lemma sim_index_set_l d1 d2 k t : sim d1 d2 -> sim (index_set d1 k t) d2. Proof. exact (fun H => H). Qed.
 Lemma sim_index_set_r d1 d2 k t : sim d1 d2 -> sim d1 (index_set d2 k t). Proof. exact (fun H => H). Qed.
 Lemma sim_index_del_l d1 d2 k : sim d1 d2 -> sim (index_del d1 k) d2. Proof. exact (fun H => H). Qed.
 Lemma sim_index_del_r d1 d2 k : sim d1 d2 -> sim d1 (index_del d2 k). Proof. exact (fun H => H). Qed.
 
-Lemma sim_set_value t1 t2 d1 d2 k v ttl :
-  sim d1 d2 -> sim (set_value t1 d1 k v ttl) (set_value t2 d2 k v ttl).
-Proof.
-  intros H. unfold set_value. destruct ttl.
-  - apply sim_index_set_l, sim_index_set_r, sim_put; [exact H|split; reflexivity].
-  - apply sim_put; [exact H|split; reflexivity].
-Qed.
+(** storing a value without a time to live does not look at the clock *)
+Lemma sim_set_value t1 t2 d1 d2 k v :
+  sim d1 d2 -> sim (set_value t1 d1 k v None) (set_value t2 d2 k v None).
+Proof. intros H. unfold set_value. apply sim_put; [exact H|split; reflexivity]. Qed.
 
 (** ---- without expired entries the clock is invisible ---- *)
-Lemma fresh_entry now d k e : fresh now d = true -> get_entry d k = Some e -> expired now e = false.
-Proof.
-  intros Hf He. pose proof (fresh_not_expired now d k Hf) as H. unfold was_expired in H. rewrite He in H. exact H.
-Qed.
 Lemma exists_sim t1 t2 d1 d2 k :
-  sim d1 d2 -> fresh t1 d1 = true -> fresh t2 d2 = true -> eng_exists t2 d2 k = eng_exists t1 d1 k.
+  sim d1 d2 -> lfresh t1 d1 -> lfresh t2 d2 -> eng_exists t2 d2 k = eng_exists t1 d1 k.
 Proof.
   intros H F1 F2. unfold eng_exists. pose proof (sim_lookup d1 d2 k H) as R.
   destruct (get_entry d1 k) as [e1|] eqn:E1, (get_entry d2 k) as [e2|] eqn:E2; cbn [orel] in R; try contradiction; [|reflexivity].
-  rewrite (fresh_entry _ _ _ _ F1 E1), (fresh_entry _ _ _ _ F2 E2). reflexivity.
+  rewrite (lfresh_entry _ _ _ _ F1 E1), (lfresh_entry _ _ _ _ F2 E2). reflexivity.
 Qed.
-Lemma eng_get_fresh now d k : fresh now d = true ->
+Lemma eng_get_fresh now d k : lfresh now d ->
   eng_get now d k = (match get_entry d k with Some e => Found (e_val e) | None => NotFound end, d).
 Proof.
   intros F. unfold eng_get. destruct (get_entry d k) as [e|] eqn:E; [|reflexivity].
-  rewrite (fresh_entry _ _ _ _ F E). reflexivity.
+  rewrite (lfresh_entry _ _ _ _ F E). reflexivity.
 Qed.
 
 (** ---- the generic single-key engine functions of lists / sets / hashes ---- *)
@@ -182,18 +178,14 @@ Ltac sim_branch :=
 Section Strings.
 Variables (t1 t2 : Z) (d1 d2 : db).
 Hypothesis H : sim d1 d2.
-Hypothesis F1 : fresh t1 d1 = true.
-Hypothesis F2 : fresh t2 d2 = true.
+Hypothesis F1 : lfresh t1 d1.
+Hypothesis F2 : lfresh t2 d2.
 
 Ltac ex := match goal with |- context [eng_exists t2 d2 ?k] => rewrite (exists_sim t1 t2 d1 d2 k H F1 F2) end.
 Ltac go := repeat first [ex | sim_get H | sim_branch].
 
-Lemma h_set_sim parts : sim (snd (h_set t1 d1 parts)) (snd (h_set t2 d2 parts)).
-Proof. unfold h_set. go; sim_close H. Qed.
 Lemma h_setnx_sim parts : sim (snd (h_setnx t1 d1 parts)) (snd (h_setnx t2 d2 parts)).
 Proof. unfold h_setnx. go; sim_close H. Qed.
-Lemma h_setex_sim m parts : sim (snd (h_setex m t1 d1 parts)) (snd (h_setex m t2 d2 parts)).
-Proof. unfold h_setex. repeat sim_branch; sim_close H. Qed.
 Lemma h_exists_sim parts : sim (snd (h_exists t1 d1 parts)) (snd (h_exists t2 d2 parts)).
 Proof. unfold h_exists. repeat sim_branch; sim_close H. Qed.
 Lemma h_flushdb_sim parts : sim (snd (h_flushdb d1 parts)) (snd (h_flushdb d2 parts)).
@@ -218,7 +210,7 @@ Proof.
   unfold eng_persist. pose proof (sim_lookup d1 d2 k H) as R.
   destruct (get_entry d1 k) as [e1|], (get_entry d2 k) as [e2|]; cbn [orel] in R; try contradiction;
     [|split; [reflexivity|exact H]].
-  destruct R as [Rv Rt]. unfold has_ttl in Rt.
+  destruct R as [Rv Rt].
   destruct (e_exp e1), (e_exp e2); try discriminate; cbn [fst snd]; (split; [reflexivity|]); [|exact H].
   apply sim_index_del_l, sim_index_del_r, sim_put; [exact H|split; [exact Rv|reflexivity]].
 Qed.
@@ -235,14 +227,6 @@ Proof.
   destruct (get_entry d1 k), (get_entry d2 k); cbn [orel] in R; try contradiction; cbn [fst snd];
     (split; [reflexivity|]); [|exact H].
   apply sim_index_del_l, sim_index_del_r, sim_del. exact H.
-Qed.
-Lemma eng_expire_sim k ms : fst (eng_expire t1 d1 k ms) = fst (eng_expire t2 d2 k ms) /\
-  sim (snd (eng_expire t1 d1 k ms)) (snd (eng_expire t2 d2 k ms)).
-Proof.
-  unfold eng_expire. pose proof (sim_lookup d1 d2 k H) as R.
-  destruct (get_entry d1 k) as [e1|], (get_entry d2 k) as [e2|]; cbn [orel] in R; try contradiction; cbn [fst snd];
-    (split; [reflexivity|]); [|exact H].
-  destruct R as [Rv _]. apply sim_index_set_l, sim_index_set_r, sim_put; [exact H|split; [exact Rv|reflexivity]].
 Qed.
 Lemma eng_rename_sim o n : fst (eng_rename d1 o n) = fst (eng_rename d2 o n) /\
   sim (snd (eng_rename d1 o n)) (snd (eng_rename d2 o n)).
@@ -291,28 +275,10 @@ Qed.
 Section Strings2.
 Variables (t1 t2 : Z) (d1 d2 : db).
 Hypothesis H : sim d1 d2.
-Hypothesis F1 : fresh t1 d1 = true.
-Hypothesis F2 : fresh t2 d2 = true.
+Hypothesis F1 : lfresh t1 d1.
+Hypothesis F2 : lfresh t2 d2.
 Ltac ex := match goal with |- context [eng_exists t2 d2 ?k] => rewrite (exists_sim t1 t2 d1 d2 k H F1 F2) end.
 
-Lemma h_expire_sim parts : sim (snd (h_expire t1 d1 parts)) (snd (h_expire t2 d2 parts)).
-Proof.
-  unfold h_expire. destruct (negb (nparts parts =? 3)); [exact H|].
-  destruct (nth_arg parts 1) as [k|]; [|exact H]. destruct (nth_arg parts 2) as [a|]; [|exact H].
-  destruct (parse_i64 a) as [s|]; [|exact H]. destruct (s <=? 0).
-  - destruct (eng_delete_sim d1 d2 H k) as [_ Hs]. destruct (eng_delete d1 k), (eng_delete d2 k). exact Hs.
-  - destruct (ttl_ok (s * 1000)); [|exact H].
-    destruct (eng_expire_sim t1 t2 d1 d2 H k (s * 1000)) as [_ Hs].
-    destruct (eng_expire t1 d1 k (s * 1000)), (eng_expire t2 d2 k (s * 1000)). exact Hs.
-Qed.
-Lemma h_pexpire_sim parts : sim (snd (h_pexpire t1 d1 parts)) (snd (h_pexpire t2 d2 parts)).
-Proof.
-  unfold h_pexpire. destruct (negb (nparts parts =? 3)); [exact H|].
-  destruct (nth_arg parts 1) as [k|]; [|exact H]. destruct (nth_arg parts 2) as [a|]; [|exact H].
-  destruct (parse_u64 a) as [ms|]; [|exact H]. destruct (ttl_ok ms); [|exact H].
-  destruct (eng_expire_sim t1 t2 d1 d2 H k ms) as [_ Hs].
-  destruct (eng_expire t1 d1 k ms), (eng_expire t2 d2 k ms). exact Hs.
-Qed.
 Lemma h_rename_sim parts : sim (snd (h_rename d1 parts)) (snd (h_rename d2 parts)).
 Proof.
   unfold h_rename. destruct (negb (nparts parts =? 3)); [exact H|].
@@ -351,7 +317,7 @@ Qed.
 End Strings2.
 
 Lemma inert_pair_sim t1 t2 d1 d2 (x1 x2 : db) :
-  sim d1 d2 -> fresh t1 d1 = true -> fresh t2 d2 = true ->
+  sim d1 d2 -> lfresh t1 d1 -> lfresh t2 d2 ->
   lazy_removed t1 d1 x1 -> lazy_removed t2 d2 x2 -> sim x1 x2.
 Proof. intros H F1 F2 L1 L2. rewrite (lr_fresh _ _ _ F1 L1), (lr_fresh _ _ _ F2 L2). exact H. Qed.
 
@@ -359,14 +325,19 @@ Ltac to_snd A1 A2 :=
   match type of A1 with _ = (?r1, ?x1) => match type of A2 with _ = (?r2, ?x2) =>
     change x1 with (snd (r1, x1)); change x2 with (snd (r2, x2)); rewrite <- A1, <- A2 end end.
 
+(** (SET, SETEX, PSETEX, EXPIRE, PEXPIRE compute a deadline from the clock: they are treated
+    together with their PEXPIREAT record below) *)
 Lemma exec_strings_sim t1 t2 d1 d2 name parts r1 r2 x1 x2 :
-  sim d1 d2 -> fresh t1 d1 = true -> fresh t2 d2 = true ->
+  ttl_recorded name = false ->
+  sim d1 d2 -> lfresh t1 d1 -> lfresh t2 d2 ->
   exec_strings t1 d1 name parts = Some (r1, x1) -> exec_strings t2 d2 name parts = Some (r2, x2) ->
   sim x1 x2.
 Proof.
-  unfold exec_strings. intros H F1 F2 E1 E2.
+  unfold exec_strings. intros Ht H F1 F2 E1 E2.
   repeat match type of E1 with
-  | (if ?c then _ else _) = _ => destruct c
+  | (if beq ?n ?c then _ else _) = _ =>
+      let E := fresh "E" in destruct (beq n c) eqn:E;
+      [try (exfalso; apply beq_eq in E; rewrite E in Ht; vm_compute in Ht; discriminate Ht)|clear E]
   end; try discriminate; inversion E1 as [A1]; inversion E2 as [A2]; clear E1 E2;
   first
   [ (* reads: inert on both sides *)
@@ -374,8 +345,8 @@ Proof.
      eauto using h_get_inert, h_exists_inert, h_ttl_inert, h_pttl_inert, h_mget_inert, h_strlen_inert,
        h_getrange_inert, h_type_inert, h_keys_inert, h_dbsize_inert; fail)
   | (to_snd A1 A2;
-     auto using h_set_sim, h_setnx_sim, h_setex_sim, h_flushdb_sim, h_append_sim, h_setrange_sim, h_incr_sim,
-       h_incrby_sim, h_decrby_sim, h_persist_sim, h_del_sim, h_mset_sim, h_expire_sim, h_pexpire_sim,
+     auto using h_setnx_sim, h_flushdb_sim, h_append_sim, h_setrange_sim, h_incr_sim,
+       h_incrby_sim, h_decrby_sim, h_persist_sim, h_del_sim, h_mset_sim,
        h_rename_sim, h_renamenx_sim, h_getset_sim) ].
 Qed.
 
@@ -383,7 +354,7 @@ Qed.
     and are outside this part) ---- *)
 Definition sres_rel (a b : Streams.sres) : Prop :=
   match a, b with
-  | SStream e1 s1, SStream e2 s2 => s1 = s2 /\ has_ttl e1 = has_ttl e2
+  | SStream e1 s1, SStream e2 s2 => s1 = s2 /\ e_exp e1 = e_exp e2
   | Streams.SWrong, Streams.SWrong => True
   | SMissing, SMissing => True
   | _, _ => False
@@ -394,7 +365,7 @@ Proof.
   destruct (get_entry d1 k) as [e1|], (get_entry d2 k) as [e2|]; cbn [orel] in R; try contradiction; [|exact I].
   destruct R as [Rv Rt]. rewrite Rv. destruct (e_val e2); cbn [sres_rel]; auto.
 Qed.
-Lemma put_stream_sim d1 d2 k e1 e2 s : sim d1 d2 -> has_ttl e1 = has_ttl e2 ->
+Lemma put_stream_sim d1 d2 k e1 e2 s : sim d1 d2 -> e_exp e1 = e_exp e2 ->
   sim (put_stream d1 k e1 s) (put_stream d2 k e2 s).
 Proof. intros H Ht. unfold put_stream. apply sim_put; [exact H|split; [reflexivity|exact Ht]]. Qed.
 
@@ -446,6 +417,17 @@ Proof.
   destruct (0 <? n); [apply put_stream_sim; assumption|exact H].
 Qed.
 
+(** PEXPIREAT: the deadline is an absolute time; the clock only decides whether it has passed -
+    and it has passed at neither clock reading when the databases are to stay without expired entries *)
+Lemma eng_expire_abs t1 t2 d1 d2 k D : sim d1 d2 ->
+  fst (eng_expire t1 d1 k (D - t1)) = fst (eng_expire t2 d2 k (D - t2)) /\
+  sim (snd (eng_expire t1 d1 k (D - t1))) (snd (eng_expire t2 d2 k (D - t2))).
+Proof.
+  intros H. unfold eng_expire. pose proof (sim_lookup d1 d2 k H) as R.
+  destruct (get_entry d1 k) as [e1|], (get_entry d2 k) as [e2|]; cbn [orel] in R; try contradiction; cbn [fst snd];
+    (split; [reflexivity|]); [|exact H].
+  destruct R as [Rv _]. apply sim_index_set_l, sim_index_set_r, sim_put; [exact H|split; [exact Rv|cbn [e_exp]; f_equal; lia]].
+Qed.
 (** commands outside the clock-independent part: XGROUP .. XCLAIM stamp the clock into the value;
     for the sorted-set writes and scripts the handler-by-handler proof is not done here *)
 Definition untimed_excluded : list bytes :=
@@ -454,7 +436,7 @@ Definition untimed_excluded : list bytes :=
 
 Lemma exec_streams_sim t1 t2 d1 d2 name parts o r1 r2 x1 x2 :
   mem_name name untimed_excluded = false ->
-  sim d1 d2 -> fresh t1 d1 = true -> fresh t2 d2 = true ->
+  sim d1 d2 -> lfresh t1 d1 -> lfresh t2 d2 ->
   exec_streams t1 d1 name parts o = Some (r1, x1) -> exec_streams t2 d2 name parts o = Some (r2, x2) ->
   sim x1 x2.
 Proof.
@@ -462,7 +444,7 @@ Proof.
   repeat match type of E1 with
   | (if beq ?n ?c then _ else _) = _ =>
       let E := fresh "E" in destruct (beq n c) eqn:E;
-      [apply beq_eq in E; subst n; try (exfalso; vm_compute in Hc; discriminate Hc)|clear E]
+      [try (exfalso; apply beq_eq in E; rewrite E in Hc; vm_compute in Hc; discriminate Hc)|clear E]
   end; try discriminate; inversion E1 as [A1]; inversion E2 as [A2]; clear E1 E2;
   first
   [ (eapply (inert_pair_sim t1 t2 d1 d2); [exact H|exact F1|exact F2| |];
@@ -471,7 +453,7 @@ Proof.
 Qed.
 Lemma exec_zsets_sim t1 t2 d1 d2 name parts o r1 r2 x1 x2 :
   mem_name name untimed_excluded = false ->
-  sim d1 d2 -> fresh t1 d1 = true -> fresh t2 d2 = true ->
+  sim d1 d2 -> lfresh t1 d1 -> lfresh t2 d2 ->
   exec_zsets t1 d1 name parts o = Some (r1, x1) -> exec_zsets t2 d2 name parts o = Some (r2, x2) ->
   sim x1 x2.
 Proof.
@@ -479,13 +461,13 @@ Proof.
   repeat match type of E1 with
   | (if beq ?n ?c then _ else _) = _ =>
       let E := fresh "E" in destruct (beq n c) eqn:E;
-      [apply beq_eq in E; subst n; try (exfalso; vm_compute in Hc; discriminate Hc)|clear E]
+      [try (exfalso; apply beq_eq in E; rewrite E in Hc; vm_compute in Hc; discriminate Hc)|clear E]
   end; try discriminate; inversion E1 as [A1]; inversion E2 as [A2]; clear E1 E2;
   (eapply (inert_pair_sim t1 t2 d1 d2); [exact H|exact F1|exact F2| |];
    eauto using h_zscore_inert, h_zcard_inert, h_zrank_inert, h_zrange_inert, h_zrangebyscore_inert, h_zcount_inert).
 Qed.
 Lemma exec_scan_sim t1 t2 d1 d2 name parts o r1 r2 x1 x2 :
-  sim d1 d2 -> fresh t1 d1 = true -> fresh t2 d2 = true ->
+  sim d1 d2 -> lfresh t1 d1 -> lfresh t2 d2 ->
   exec_scan t1 d1 name parts o = Some (r1, x1) -> exec_scan t2 d2 name parts o = Some (r2, x2) -> sim x1 x2.
 Proof.
   intros H F1 F2 E1 E2. eapply (inert_pair_sim t1 t2 d1 d2); eauto using exec_scan_inert.
@@ -525,34 +507,35 @@ Proof. unfold exec_scripts. dom_tac. Qed.
 Ltac dom_case D :=
   try (destruct D as [Da Db]; first [specialize (Da eq_refl) | specialize (Db eq_refl)]; discriminate).
 Lemma exec_db_sim t1 t2 d1 d2 name parts o :
-  mem_name name untimed_excluded = false ->
-  sim d1 d2 -> fresh t1 d1 = true -> fresh t2 d2 = true ->
+  mem_name name untimed_excluded = false -> ttl_recorded name = false -> beq name (bs "PEXPIREAT") = false ->
+  sim d1 d2 -> lfresh t1 d1 -> lfresh t2 d2 ->
   match exec_db t1 d1 name parts o, exec_db t2 d2 name parts o with
   | Some (_, x1), Some (_, x2) => sim x1 x2
   | None, None => True
   | _, _ => False
   end.
 Proof.
-  intros Hc H F1 F2. unfold exec_db.
+  intros Hc Ht Hx H F1 F2. unfold exec_db.
   pose proof (exec_strings_dom t1 t2 d1 d2 name parts) as D.
   destruct (exec_strings t1 d1 name parts) as [[r1 x1]|] eqn:E1, (exec_strings t2 d2 name parts) as [[r2 x2]|] eqn:E2; dom_case D.
-  { eapply exec_strings_sim; eauto. }
+  { exact (exec_strings_sim t1 t2 d1 d2 name parts r1 r2 x1 x2 Ht H F1 F2 E1 E2). }
   clear D. pose proof (exec_lists_dom t1 t2 d1 d2 name parts o) as D.
   destruct (exec_lists t1 d1 name parts o) as [[r1 x1]|] eqn:E3, (exec_lists t2 d2 name parts o) as [[r2 x2]|] eqn:E4; dom_case D.
-  { eapply exec_lists_sim; eauto. }
+  { exact (exec_lists_sim t1 t2 d1 d2 name parts o r1 r2 x1 x2 H E3 E4). }
   clear D. pose proof (exec_zsets_dom t1 t2 d1 d2 name parts o) as D.
   destruct (exec_zsets t1 d1 name parts o) as [[r1 x1]|] eqn:E5, (exec_zsets t2 d2 name parts o) as [[r2 x2]|] eqn:E6; dom_case D.
-  { eapply exec_zsets_sim; eauto. }
+  { exact (exec_zsets_sim t1 t2 d1 d2 name parts o r1 r2 x1 x2 Hc H F1 F2 E5 E6). }
   clear D. pose proof (exec_streams_dom t1 t2 d1 d2 name parts o) as D.
   destruct (exec_streams t1 d1 name parts o) as [[r1 x1]|] eqn:E7, (exec_streams t2 d2 name parts o) as [[r2 x2]|] eqn:E8; dom_case D.
-  { eapply exec_streams_sim; eauto. }
+  { exact (exec_streams_sim t1 t2 d1 d2 name parts o r1 r2 x1 x2 Hc H F1 F2 E7 E8). }
   clear D. pose proof (exec_scan_dom t1 t2 d1 d2 name parts o) as D.
   destruct (exec_scan t1 d1 name parts o) as [[r1 x1]|] eqn:E9, (exec_scan t2 d2 name parts o) as [[r2 x2]|] eqn:E10; dom_case D.
-  { eapply exec_scan_sim; eauto. }
+  { exact (exec_scan_sim t1 t2 d1 d2 name parts o r1 r2 x1 x2 H F1 F2 E9 E10). }
   clear D. pose proof (exec_scripts_dom t1 t2 d1 d2 name parts o) as D.
   destruct (exec_scripts t1 d1 name parts o) as [[r1 x1]|] eqn:E11, (exec_scripts t2 d2 name parts o) as [[r2 x2]|] eqn:E12; dom_case D.
-  { eapply exec_scripts_sim; eauto. }
-  exact I.
+  { exact (exec_scripts_sim t1 t2 d1 d2 name parts o r1 r2 x1 x2 Hc H E11 E12). }
+  (* PEXPIREAT: needs the state AFTER the command, see below *)
+  unfold exec_aofcmds. rewrite Hx. exact I.
 Qed.
 
 (** ---- all sixteen databases ---- *)
@@ -565,65 +548,766 @@ Lemma sims_list_set : forall a b i x y, sims a b -> sim x y -> sims (list_set a 
 Proof. intros a b i x y H. revert i. induction H; intros [|i] Hs; cbn [list_set]; constructor; auto. apply IHForall2. exact Hs. Qed.
 Lemma sims_flush a b : sims a b -> sims (map (fun _ => empty_db) a) (map (fun _ => empty_db) b).
 Proof. induction 1; cbn [map]; constructor; [apply sim_empty|assumption]. Qed.
-Lemma sims_datasets a b : sims a b -> map dataset a = map dataset b.
-Proof. induction 1; cbn [map]; [reflexivity|]. rewrite (sim_dataset _ _ H), IHForall2. reflexivity. Qed.
 
 (** one command at two clock readings *)
 Lemma step_dbs_sim t1 t2 a b dbi parts o :
-  mem_name (cmd_name parts) untimed_excluded = false ->
-  sims a b -> fresh_all t1 a = true -> fresh_all t2 b = true ->
+  mem_name (cmd_name parts) untimed_excluded = false -> ttl_recorded (cmd_name parts) = false ->
+  beq (cmd_name parts) (bs "PEXPIREAT") = false ->
+  sims a b -> lfresh_all t1 a -> lfresh_all t2 b ->
   sims (step_dbs t1 a dbi parts o) (step_dbs t2 b dbi parts o).
 Proof.
-  intros Hc H F1 F2. unfold step_dbs, cmd_name in *.
+  intros Hc Ht Hx H F1 F2. unfold step_dbs, cmd_name in *.
   destruct parts as [|first rest]; [exact H|]. destruct first; try exact H.
   rewrite (pre_dbs_fresh t1 a dbi _ _ F1), (pre_dbs_fresh t2 b dbi _ _ F2). unfold dstep_dbs.
   repeat match goal with |- context [if ?c then _ else _] => destruct c end; try exact H; try (apply sims_flush; exact H).
-  pose proof (exec_db_sim t1 t2 _ _ (upper b0) (FBulk b0 :: rest) o Hc (sims_nth a b (Z.to_nat dbi) H)
-                (fresh_all_nth t1 a _ F1) (fresh_all_nth t2 b _ F2)) as X.
+  pose proof (exec_db_sim t1 t2 _ _ (upper b0) (FBulk b0 :: rest) o Hc Ht Hx (sims_nth a b (Z.to_nat dbi) H)
+                (F1 _) (F2 _)) as X.
   destruct (exec_db t1 (nth (Z.to_nat dbi) a empty_db) (upper b0) (FBulk b0 :: rest) o) as [[? ?]|],
            (exec_db t2 (nth (Z.to_nat dbi) b empty_db) (upper b0) (FBulk b0 :: rest) o) as [[? ?]|];
     try contradiction; [apply sims_list_set; assumption|exact H].
 Qed.
 
-(** ================= the replay theorem with a clock ================= *)
-Definition timeless (x : tcmd) : bool := negb (mem_name (cmd_name (snd (snd x))) untimed_excluded).
-Theorem replay_any_time h now' :
-  forallb (fun te => ev_ok (snd te)) h = true ->
-  forallb timeless (trace_of h) = true ->
-  live_fresh (trace_of h) dbs0 = true ->
-  redo_fresh now' (aof_log (run_tevs h)) (0, dbs0) = true ->
-  map dataset (s_dbs (replay now' (aof_log (run_tevs h)))) = map dataset (s_dbs (run_tevs h)).
+
+(** ================= the commands that give a key a time to live ================= *)
+(** what SET / SETEX / PSETEX / EXPIRE / PEXPIRE do to the database, as a plan that does not
+    mention the clock; the clock enters when the plan is run: deadline = clock + time to live *)
+Inductive plan := PKeep | PSet (k : bytes) (v : value) (ttl : option Z) | PExp (k : bytes) (ms : Z) | PDel (k : bytes).
+Definition run_plan (now : Z) (d : db) (p : plan) : db :=
+  match p with
+  | PKeep => d
+  | PSet k v ttl => set_value now d k v ttl
+  | PExp k ms => snd (eng_expire now d k ms)
+  | PDel k => snd (eng_delete d k)
+  end.
+Definition plan_on (p : plan) (k : bytes) : Prop :=
+  match p with PKeep => True | PSet k' _ _ => k' = k | PExp k' _ => k' = k | PDel k' => k' = k end.
+(** the plan concerns the key the command names (its first argument), if it does anything *)
+Definition plan_key (p : plan) (parts : list frame) : Prop :=
+  match nth_error parts 1 with Some (FBulk k) => plan_on p k | _ => p = PKeep end.
+Definition has_key (d : db) (k : bytes) : bool := match get_entry d k with Some _ => true | None => false end.
+Lemma exists_has_key now d k : lfresh now d -> eng_exists now d k = has_key d k.
 Proof.
-  intros Hok Ht Hl Hr. rewrite (history_file h Hok) in *. rewrite replay_redo.
-  unfold run_tevs, trace_of in *.
-  destruct (history_is_trace h (init_server None) linv_init Hok) as (H1 & _ & H3).
-  rewrite H1. symmetry. apply sims_datasets.
-  apply (trace_redo_rel sims now' timeless); auto; [|apply sims_refl|discriminate].
-  intros t dbi p d1 d2 HP _ HR F1 F2. unfold timeless in HP. cbn [snd] in HP. apply negb_true_iff in HP.
-  apply step_dbs_sim; assumption.
+  intros F. unfold eng_exists, has_key. destruct (get_entry d k) as [e|] eqn:E; [|reflexivity].
+  rewrite (lfresh_entry _ _ _ _ F E). reflexivity.
+Qed.
+Lemma has_key_sim d1 d2 k : sim d1 d2 -> has_key d1 k = has_key d2 k.
+Proof.
+  intros H. unfold has_key. pose proof (sim_lookup d1 d2 k H) as R.
+  destruct (get_entry d1 k), (get_entry d2 k); cbn [orel] in R; try contradiction; reflexivity.
 Qed.
 
-(** non-vacuity: events spread over an hour in two databases, TTLs set, a transaction; redo a day later *)
-Definition sample_timed : list tev :=
-  [(0, EConn 1); (0, EConn 2);
-   (1000, EFrame 1 (cmd [bs "SET"; bs "k"; bs "a"; bs "EX"; bs "100000"]));
-   (1500, EFrame 2 (cmd [bs "SELECT"; bs "2"]));
-   (2000, EFrame 2 (cmd [bs "MULTI"]));
-   (2500, EFrame 2 (cmd [bs "RPUSH"; bs "l"; bs "x"; bs "y"]));
-   (2600, EFrame 2 (cmd [bs "SETEX"; bs "t"; bs "90000"; bs "v"]));
-   (60000, EFrame 1 (cmd [bs "GETSET"; bs "k"; bs "b"]));
-   (3600000, EFrame 2 (cmd [bs "EXEC"]));
-   (3600001, EFrame 1 (cmd [bs "XADD"; bs "x"; bs "1-1"; bs "f"; bs "v"]));
-   (3600002, EFrame 2 (cmd [bs "EXPIRE"; bs "l"; bs "50"]));
-   (3600003, EFrame 1 (cmd [bs "PEXPIRE"; bs "k"; bs "100000"]))].
-Lemma sample_timed_ok :
-  forallb (fun te => ev_ok (snd te)) sample_timed = true /\
-  forallb timeless (trace_of sample_timed) = true /\
-  live_fresh (trace_of sample_timed) dbs0 = true /\
-  redo_fresh 86400000 (aof_log (run_tevs sample_timed)) (0, dbs0) = true /\
-  len (aof_log (run_tevs sample_timed)) = 12 /\
-  s_dbs (replay 86400000 (aof_log (run_tevs sample_timed))) <> s_dbs (run_tevs sample_timed).
-Proof. repeat (apply conj; [vm_compute; reflexivity|]). intro H; vm_compute in H; discriminate H. Qed.
+Definition set_plan (d : db) (parts : list frame) : plan :=
+  if nparts parts <? 3 then PKeep else
+  match nth_error parts 1, nth_error parts 2 with
+  | Some (FBulk k), Some v =>
+      if beq k [] then PKeep else
+      match arg_bytes v with
+      | None => PKeep
+      | Some vb =>
+          match parse_set_opts (length parts) (skipn 3 parts) None false false with
+          | SetSyntax | SetBadExpire => PKeep
+          | SetOpts ttl nx xx =>
+              if nx && xx then PKeep else
+              match ttl with
+              | Some ms => if ttl_ok ms then
+                             (if nx then (if has_key d k then PKeep else PSet k (VStr vb) ttl)
+                              else if xx then (if has_key d k then PSet k (VStr vb) ttl else PKeep)
+                              else PSet k (VStr vb) ttl)
+                           else PKeep
+              | None => if nx then (if has_key d k then PKeep else PSet k (VStr vb) None)
+                        else if xx then (if has_key d k then PSet k (VStr vb) None else PKeep)
+                        else PSet k (VStr vb) None
+              end
+          end
+      end
+  | _, _ => PKeep
+  end.
+Definition setex_plan (mult : Z) (parts : list frame) : plan :=
+  if negb (nparts parts =? 4) then PKeep else
+  match nth_arg parts 1, nth_arg parts 2, nth_arg parts 3 with
+  | Some k, Some a, Some v =>
+      match parse_u64 a with
+      | Some n => if ttl_ok (n * mult) then PSet k (VStr v) (Some (n * mult)) else PKeep
+      | None => PKeep
+      end
+  | _, _, _ => PKeep
+  end.
+Definition expire_plan (parts : list frame) : plan :=
+  if negb (nparts parts =? 3) then PKeep else
+  match nth_arg parts 1, nth_arg parts 2 with
+  | Some k, Some a =>
+      match parse_i64 a with
+      | Some s => if s <=? 0 then PDel k else if ttl_ok (s * 1000) then PExp k (s * 1000) else PKeep
+      | None => PKeep
+      end
+  | _, _ => PKeep
+  end.
+Definition pexpire_plan (parts : list frame) : plan :=
+  if negb (nparts parts =? 3) then PKeep else
+  match nth_arg parts 1, nth_arg parts 2 with
+  | Some k, Some a =>
+      match parse_u64 a with
+      | Some ms => if ttl_ok ms then PExp k ms else PKeep
+      | None => PKeep
+      end
+  | _, _ => PKeep
+  end.
+Definition ttl_plan (name : bytes) (d : db) (parts : list frame) : plan :=
+  if beq name (bs "SET") then set_plan d parts
+  else if beq name (bs "SETEX") then setex_plan 1000 parts
+  else if beq name (bs "PSETEX") then setex_plan 1 parts
+  else if beq name (bs "EXPIRE") then expire_plan parts
+  else if beq name (bs "PEXPIRE") then pexpire_plan parts
+  else PKeep.
+
+Ltac plan_tac :=
+  repeat match goal with
+  | |- context [if ?c then _ else _] => destruct c
+  | |- context [match ?x with _ => _ end] => destruct x
+  end; cbn [fst snd run_plan is_err r_err r_ok r_nil r_int]; repeat split; intros; try reflexivity; try discriminate.
+
+Lemma plan_key_keep parts : plan_key PKeep parts.
+Proof. unfold plan_key. destruct (nth_error parts 1) as [[]|]; cbn [plan_on]; auto. Qed.
+Lemma h_set_plan t d parts : lfresh t d ->
+  snd (h_set t d parts) = run_plan t d (set_plan d parts) /\
+  (is_err (fst (h_set t d parts)) = true -> set_plan d parts = PKeep).
+Proof.
+  intros F. unfold h_set, set_plan.
+  destruct (nparts parts <? 3); [cbn; auto|].
+  destruct (nth_error parts 1) as [[| | |k| | | | | | | | |]|]; try (cbn; auto; fail);
+    destruct (nth_error parts 2) as [v|]; try (cbn; auto; fail).
+  destruct (beq k []); [cbn; auto|]. destruct (arg_bytes v) as [vb|]; [|cbn; auto].
+  rewrite !(exists_has_key t d k F).
+  destruct (parse_set_opts (length parts) (skipn 3 parts) None false false) as [ttl nx xx| |]; try (cbn; auto; fail).
+  destruct (nx && xx); [cbn; auto|].
+  destruct ttl as [ms|]; [destruct (ttl_ok ms)|]; destruct nx; destruct xx; destruct (has_key d k);
+    cbn [fst snd run_plan is_err r_err r_ok r_nil]; repeat split; intros; try reflexivity; try discriminate.
+Qed.
+Lemma set_plan_key d parts : plan_key (set_plan d parts) parts.
+Proof.
+  unfold set_plan. destruct (nparts parts <? 3); [apply plan_key_keep|].
+  destruct (nth_error parts 1) as [[| | |k| | | | | | | | |]|] eqn:E1; try apply plan_key_keep;
+    destruct (nth_error parts 2) as [v|]; try apply plan_key_keep.
+  assert (K : forall v t, plan_key (PSet k v t) parts) by (intros; unfold plan_key; rewrite E1; reflexivity).
+  destruct (beq k []); [apply plan_key_keep|]. destruct (arg_bytes v) as [vb|]; [|apply plan_key_keep].
+  destruct (parse_set_opts (length parts) (skipn 3 parts) None false false) as [ttl nx xx| |]; try apply plan_key_keep.
+  destruct (nx && xx); [apply plan_key_keep|].
+  destruct ttl as [ms|]; [destruct (ttl_ok ms)|]; destruct nx; destruct xx; destruct (has_key d k);
+    first [apply plan_key_keep | apply K].
+Qed.
+Lemma h_setex_plan m t d parts :
+  snd (h_setex m t d parts) = run_plan t d (setex_plan m parts) /\
+  (is_err (fst (h_setex m t d parts)) = true -> setex_plan m parts = PKeep) /\
+  plan_key (setex_plan m parts) parts.
+Proof.
+  pose proof (plan_key_keep parts) as K.
+  unfold h_setex, setex_plan. destruct (negb (nparts parts =? 4)); [cbn; auto|].
+  destruct (nth_arg parts 1) as [k|] eqn:Ek; [|cbn; auto]. destruct (nth_arg parts 2) as [a|]; [|cbn; auto].
+  destruct (parse_u64 a) as [n|]; [|destruct (nth_arg parts 3); cbn; auto].
+  destruct (nth_arg parts 3) as [v|]; [|cbn; auto]. destruct (ttl_ok (n * m)); cbn [fst snd run_plan is_err r_ok r_err]; repeat split; intros; try reflexivity; try discriminate; try exact K.
+  apply nth_arg_bulk in Ek. unfold plan_key. rewrite Ek. reflexivity.
+Qed.
+Lemma h_expire_plan t d parts :
+  snd (h_expire t d parts) = run_plan t d (expire_plan parts) /\
+  (is_err (fst (h_expire t d parts)) = true -> expire_plan parts = PKeep) /\
+  plan_key (expire_plan parts) parts.
+Proof.
+  pose proof (plan_key_keep parts) as K.
+  unfold h_expire, expire_plan. destruct (negb (nparts parts =? 3)); [cbn; auto|].
+  destruct (nth_arg parts 1) as [k|] eqn:Ek; [|cbn; auto]. destruct (nth_arg parts 2) as [a|]; [|cbn; auto].
+  destruct (parse_i64 a) as [s|]; [|cbn; auto]. apply nth_arg_bulk in Ek.
+  destruct (s <=? 0).
+  - destruct (eng_delete d k) as [b x] eqn:E. cbn [fst snd run_plan]. rewrite E. cbn [snd].
+    repeat split; intros; try discriminate. unfold plan_key. rewrite Ek. reflexivity.
+  - destruct (ttl_ok (s * 1000)); [|cbn; auto].
+    destruct (eng_expire t d k (s * 1000)) as [b x] eqn:E. cbn [fst snd run_plan]. rewrite E. cbn [snd].
+    repeat split; intros; try discriminate. unfold plan_key. rewrite Ek. reflexivity.
+Qed.
+Lemma h_pexpire_plan t d parts :
+  snd (h_pexpire t d parts) = run_plan t d (pexpire_plan parts) /\
+  (is_err (fst (h_pexpire t d parts)) = true -> pexpire_plan parts = PKeep) /\
+  plan_key (pexpire_plan parts) parts.
+Proof.
+  pose proof (plan_key_keep parts) as K.
+  unfold h_pexpire, pexpire_plan. destruct (negb (nparts parts =? 3)); [cbn; auto|].
+  destruct (nth_arg parts 1) as [k|] eqn:Ek; [|cbn; auto]. destruct (nth_arg parts 2) as [a|]; [|cbn; auto].
+  destruct (parse_u64 a) as [ms|]; [|cbn; auto]. apply nth_arg_bulk in Ek.
+  destruct (ttl_ok ms); [|cbn; auto].
+  destruct (eng_expire t d k ms) as [b x] eqn:E. cbn [fst snd run_plan]. rewrite E. cbn [snd].
+  repeat split; intros; try discriminate. unfold plan_key. rewrite Ek. reflexivity.
+Qed.
+(** the five commands, through the dispatcher *)
+Lemma exec_db_ttl t d name parts o : ttl_recorded name = true -> lfresh t d ->
+  exists r, exec_db t d name parts o = Some (r, run_plan t d (ttl_plan name d parts)) /\
+            (is_err r = true -> ttl_plan name d parts = PKeep) /\
+            plan_key (ttl_plan name d parts) parts.
+Proof.
+  intros Ht F. unfold ttl_recorded in Ht. unfold ttl_plan.
+  destruct (beq name (bs "SET")) eqn:E1.
+  { apply beq_eq in E1. subst name. destruct (h_set_plan t d parts F) as (A & B). pose proof (set_plan_key d parts) as C.
+    exists (fst (h_set t d parts)). split; [|auto].
+    change (exec_db t d (bs "SET") parts o) with (Some (h_set t d parts)). rewrite <- A. destruct (h_set t d parts); reflexivity. }
+  destruct (beq name (bs "SETEX")) eqn:E2.
+  { apply beq_eq in E2. subst name. destruct (h_setex_plan 1000 t d parts) as (A & B & C).
+    exists (fst (h_setex 1000 t d parts)). split; [|auto].
+    change (exec_db t d (bs "SETEX") parts o) with (Some (h_setex 1000 t d parts)). rewrite <- A. destruct (h_setex 1000 t d parts); reflexivity. }
+  destruct (beq name (bs "PSETEX")) eqn:E3.
+  { apply beq_eq in E3. subst name. destruct (h_setex_plan 1 t d parts) as (A & B & C).
+    exists (fst (h_setex 1 t d parts)). split; [|auto].
+    change (exec_db t d (bs "PSETEX") parts o) with (Some (h_setex 1 t d parts)). rewrite <- A. destruct (h_setex 1 t d parts); reflexivity. }
+  destruct (beq name (bs "EXPIRE")) eqn:E4.
+  { apply beq_eq in E4. subst name. destruct (h_expire_plan t d parts) as (A & B & C).
+    exists (fst (h_expire t d parts)). split; [|auto].
+    change (exec_db t d (bs "EXPIRE") parts o) with (Some (h_expire t d parts)). rewrite <- A. destruct (h_expire t d parts); reflexivity. }
+  destruct (beq name (bs "PEXPIRE")) eqn:E5; [|discriminate Ht].
+  apply beq_eq in E5. subst name. destruct (h_pexpire_plan t d parts) as (A & B & C).
+  exists (fst (h_pexpire t d parts)). split; [|auto].
+  change (exec_db t d (bs "PEXPIRE") parts o) with (Some (h_pexpire t d parts)). rewrite <- A. destruct (h_pexpire t d parts); reflexivity.
+Qed.
+Lemma ttl_plan_sim name d1 d2 parts : sim d1 d2 -> ttl_plan name d1 parts = ttl_plan name d2 parts.
+Proof.
+  intros H. unfold ttl_plan. destruct (beq name (bs "SET")); [|reflexivity].
+  unfold set_plan. destruct (nparts parts <? 3); [reflexivity|].
+  destruct (nth_error parts 1) as [[| | |k| | | | | | | | |]|]; try reflexivity.
+  rewrite (has_key_sim d1 d2 k H). reflexivity.
+Qed.
+
+(** ---- a plan run at two clock readings, and the deadline record ---- *)
+Lemma lfresh_put now d k e : lfresh now d -> expired now e = false -> lfresh now (put_entry d k e).
+Proof.
+  intros F He k'. unfold was_expired. destruct (beq k' k) eqn:E.
+  - apply beq_eq in E. subst. rewrite get_entry_put_same. exact He.
+  - rewrite get_entry_put_other by exact E. apply F.
+Qed.
+Lemma lfresh_del now d k : lfresh now d -> lfresh now (del_entry d k).
+Proof.
+  intros F k'. unfold was_expired. destruct (beq k' k) eqn:E.
+  - apply beq_eq in E. subst. rewrite get_entry_del_same. reflexivity.
+  - rewrite get_entry_del_other by exact E. apply F.
+Qed.
+Lemma sim_put_right d1 d2 k e1 e' : sim d1 d2 -> get_entry d1 k = Some e1 -> sim_e e1 e' -> sim d1 (put_entry d2 k e').
+Proof.
+  intros H E He k'. destruct (beq k' k) eqn:B.
+  - apply beq_eq in B. subst. rewrite get_entry_put_same, E. exact He.
+  - rewrite get_entry_put_other by exact B. apply H.
+Qed.
+Lemma eng_delete_sim' d1 d2 k : sim d1 d2 -> sim (snd (eng_delete d1 k)) (snd (eng_delete d2 k)).
+Proof. intros H. exact (proj2 (eng_delete_sim d1 d2 H k)). Qed.
+
+(** [x1] = the plan run live at [t1]; [x2] = the plan run by the redo at [t2] >= [t1].  If the key
+    [k] of the command then carries a deadline in [x1], the live server wrote PEXPIREAT k deadline:
+    moving the deadline of [k] in [x2] to that time gives [x1] back - provided it is still ahead *)
+Lemma plan_redo t1 t2 d1 d2 p k :
+  t1 <= t2 -> sim d1 d2 -> plan_on p k -> lfresh t2 d2 -> lfresh t2 (run_plan t1 d1 p) ->
+  lfresh t2 (run_plan t2 d2 p) /\
+  match eng_ttl t1 (run_plan t1 d1 p) k with
+  | Some rem => t2 < t1 + rem /\ sim (run_plan t1 d1 p) (snd (eng_expire t2 (run_plan t2 d2 p) k (t1 + rem - t2)))
+  | None => sim (run_plan t1 d1 p) (run_plan t2 d2 p)
+  end.
+Proof.
+  intros Ht H Hon F2 Fx.
+  (* a key with a deadline in a database fresh at t2: the deadline record moves it to the same time *)
+  assert (Keep : forall a b, sim a b -> lfresh t2 a ->
+            match eng_ttl t1 a k with
+            | Some rem => t2 < t1 + rem /\ sim a (snd (eng_expire t2 b k (t1 + rem - t2)))
+            | None => True end).
+  { intros a b Hab Fa. unfold eng_ttl. pose proof (sim_lookup a b k Hab) as R.
+    destruct (get_entry a k) as [e1|] eqn:E1; [|exact I]. destruct (e_exp e1) as [D|] eqn:ED; [|exact I].
+    pose proof (lfresh_entry _ _ _ _ Fa E1) as Hx. unfold expired in Hx. rewrite ED in Hx.
+    replace (t1 <? D) with true by lia. split; [lia|].
+    unfold eng_expire. destruct (get_entry b k) as [e2|] eqn:E2; cbn [orel] in R; [|contradiction].
+    cbn [snd]. apply sim_index_set_r. eapply sim_put_right; [exact Hab|exact E1|].
+    destruct R as [Rv _]. split; [exact Rv|]. cbn [e_exp]. rewrite ED. f_equal. lia. }
+  destruct p as [|k' v ttl|k' ms|k']; cbn [run_plan plan_on] in *.
+  - (* nothing done *)
+    split; [exact F2|]. specialize (Keep d1 d2 H Fx). destruct (eng_ttl t1 d1 k); [exact Keep|exact H].
+  - subst k'. destruct ttl as [ms|]; unfold set_value in *.
+    + (* stored with a time to live *)
+      assert (Hms : t2 < t1 + ms).
+      { specialize (Fx k). unfold was_expired in Fx. rewrite get_entry_index, get_entry_put_same in Fx.
+        unfold expired in Fx. cbn [e_exp] in Fx. lia. }
+      split.
+      * intros k'. unfold was_expired. rewrite get_entry_index. apply lfresh_put; [exact F2|]. unfold expired. cbn [e_exp]. lia.
+      * unfold eng_ttl. rewrite get_entry_index, get_entry_put_same. cbn [e_exp]. replace (t1 <? t1 + ms) with true by lia.
+        split; [lia|]. unfold eng_expire. rewrite get_entry_index, get_entry_put_same. cbn [snd e_val].
+        apply sim_index_set_l, sim_index_set_r. intros k'. destruct (beq k' k) eqn:B.
+        -- apply beq_eq in B. subst. rewrite get_entry_put_same. rewrite get_entry_put_same. cbn [orel]. split; [reflexivity|]. cbn [e_exp]. f_equal. lia.
+        -- rewrite !get_entry_put_other by exact B. rewrite get_entry_index, get_entry_put_other by exact B. apply H.
+    + split; [apply lfresh_put; [exact F2|reflexivity]|].
+      unfold eng_ttl. rewrite get_entry_put_same. cbn [e_exp]. apply sim_put; [exact H|split; reflexivity].
+  - (* EXPIRE / PEXPIRE *)
+    subst k'. unfold eng_expire in *. pose proof (sim_lookup d1 d2 k H) as R.
+    destruct (get_entry d1 k) as [e1|] eqn:E1, (get_entry d2 k) as [e2|] eqn:E2; cbn [orel] in R; try contradiction; cbn [snd] in *.
+    + assert (Hms : t2 < t1 + ms).
+      { specialize (Fx k). unfold was_expired in Fx. rewrite get_entry_index, get_entry_put_same in Fx.
+        unfold expired in Fx. cbn [e_exp] in Fx. lia. }
+      destruct R as [Rv _]. split.
+      * intros k'. unfold was_expired. rewrite get_entry_index. apply lfresh_put; [exact F2|]. unfold expired. cbn [e_exp]. lia.
+      * unfold eng_ttl. rewrite get_entry_index, get_entry_put_same. cbn [e_exp]. replace (t1 <? t1 + ms) with true by lia.
+        split; [lia|]. rewrite get_entry_index, get_entry_put_same. cbn [snd e_val].
+        apply sim_index_set_l, sim_index_set_r. intros k'. destruct (beq k' k) eqn:B.
+        -- apply beq_eq in B. subst. rewrite get_entry_put_same. rewrite get_entry_put_same. cbn [orel]. split; [exact Rv|]. cbn [e_exp]. f_equal. lia.
+        -- rewrite !get_entry_put_other by exact B. rewrite get_entry_index, get_entry_put_other by exact B. apply H.
+    + split; [exact F2|]. unfold eng_ttl. rewrite E1. exact H.
+  - (* deleted *)
+    subst k'. split.
+    + unfold eng_delete. destruct (get_entry d2 k); cbn [snd]; [|exact F2].
+      intros k'. unfold was_expired. rewrite get_entry_index_del. apply lfresh_del. exact F2.
+    + assert (N : get_entry (snd (eng_delete d1 k)) k = None).
+      { unfold eng_delete. destruct (get_entry d1 k) eqn:E; cbn [snd]; [|exact E]. rewrite get_entry_index_del. apply get_entry_del_same. }
+      unfold eng_ttl. rewrite N. apply eng_delete_sim'. exact H.
+Qed.
+
+(** ================= one command and its records, at two clock readings ================= *)
+Lemma lfresh_sim now d1 d2 : sim d1 d2 -> lfresh now d1 -> lfresh now d2.
+Proof.
+  intros H F k. specialize (F k). unfold was_expired in *. pose proof (sim_lookup d1 d2 k H) as R.
+  destruct (get_entry d1 k) as [e1|], (get_entry d2 k) as [e2|]; cbn [orel] in R; try contradiction; [|reflexivity].
+  rewrite <- (sim_e_eq _ _ R). exact F.
+Qed.
+Lemma sims_lfresh now a b : sims a b -> lfresh_all now a -> lfresh_all now b.
+Proof. intros H F i. eapply lfresh_sim; [apply sims_nth; exact H|apply F]. Qed.
+Lemma sims_length a b : sims a b -> length a = length b.
+Proof. induction 1; cbn [length]; congruence. Qed.
+Lemma sims_list_set_cond a b i x y : sims a b -> ((i < length a)%nat -> sim x y) -> sims (list_set a i x) (list_set b i y).
+Proof.
+  intros H. revert i. induction H as [|a0 b0 a b H0 H IH]; intros [|i] Hs; cbn [list_set]; constructor; auto.
+  - apply Hs. cbn. lia.
+  - apply IH. intros Hl. apply Hs. cbn. lia.
+Qed.
+Lemma sims_list_set_right a b i y : sims a b -> ((i < length a)%nat -> sim (nth i a empty_db) y) -> sims a (list_set b i y).
+Proof. intros H Hs. rewrite <- (list_set_nth_same a i empty_db) at 1. apply sims_list_set_cond; assumption. Qed.
+Lemma sims_list_set_left a b i x : sims a b -> ((i < length a)%nat -> sim x (nth i b empty_db)) -> sims (list_set a i x) b.
+Proof. intros H Hs. rewrite <- (list_set_nth_same b i empty_db). apply sims_list_set_cond; assumption. Qed.
+Lemma list_set_beyond {A} (l : list A) : forall i x, ~ (i < length l)%nat -> list_set l i x = l.
+Proof.
+  induction l as [|z l IH]; intros i x H; [destruct i; reflexivity|].
+  destruct i; cbn [list_set]; [cbn in H; lia|]. f_equal. apply IH. cbn in H. lia.
+Qed.
+Lemma list_set_twice {A} (l : list A) : forall i x y, list_set (list_set l i x) i y = list_set l i y.
+Proof. induction l as [|z l IH]; intros [|i] x y; cbn [list_set]; try reflexivity. rewrite IH. reflexivity. Qed.
+Lemma nth_list_set_or {A} (l : list A) : forall i j x dflt, nth j (list_set l i x) dflt = x \/ nth j (list_set l i x) dflt = nth j l dflt.
+Proof.
+  induction l as [|z l IH]; intros i j x dflt; [right; destruct i; reflexivity|].
+  destruct i, j; cbn [list_set nth]; auto.
+Qed.
+Lemma lfresh_all_list_set now a i x : lfresh_all now a -> lfresh now x -> lfresh_all now (list_set a i x).
+Proof. intros F Fx j. destruct (nth_list_set_or a i j x empty_db) as [->| ->]; [exact Fx|apply F]. Qed.
+Lemma lfresh_all_post now a i x : lfresh_all now (list_set a i x) -> (i < length a)%nat -> lfresh now x.
+Proof. intros F Hl. specialize (F i). rewrite nth_list_set_same in F by exact Hl. exact F. Qed.
+
+(** the records of one command, all in its database *)
+Definition redo_dbs (now : Z) (dbi : Z) (l : list orec) (d : list db) : list db :=
+  fold_left (fun d po => step_dbs now d dbi (fst po) (snd po)) l d.
+Lemma redo_writes now dbi : forall l d, Forall (fun po => is_write (fst po) = true) l ->
+  redo now l (dbi, d) = (dbi, redo_dbs now dbi l d).
+Proof.
+  induction l as [|[p o] l IH]; intros d H; [reflexivity|]. inversion H as [|? ? Hp Hl]; subst. cbn [fst] in Hp.
+  unfold redo, redo_dbs. cbn [fold_left]. unfold redo_step at 2. cbn [fst snd]. rewrite (sel_db_written dbi p Hp).
+  apply IH. exact Hl.
+Qed.
+Definition special8 (name : bytes) : bool :=
+  beq name (bs "PING") || beq name (bs "ECHO") || beq name (bs "SELECT") || beq name (bs "FLUSHALL")
+  || beq name (bs "RANDOMKEY") || beq name (bs "AUTH") || beq name (bs "QUIT") || beq name (bs "VERIF").
+Ltac split_special H :=
+  unfold special8 in H;
+  repeat match goal with X : _ || _ = false |- _ => apply orb_false_iff in X; destruct X end;
+  repeat match goal with X : beq _ _ = false |- _ => rewrite X; clear X end.
+Lemma dstep_exec now dbs dbi nm rest o : special8 (upper nm) = false ->
+  dstep_dbs now dbs dbi (FBulk nm :: rest) o =
+  match exec_db now (nth (Z.to_nat dbi) dbs empty_db) (upper nm) (FBulk nm :: rest) o with
+  | Some (_, d') => list_set dbs (Z.to_nat dbi) d'
+  | None => dbs
+  end.
+Proof. intros H. unfold dstep_dbs. split_special H. reflexivity. Qed.
+Lemma dout_exec now dbs dbi nm rest o : special8 (upper nm) = false ->
+  dout_recs now dbs dbi (FBulk nm :: rest) o =
+  match exec_db now (nth (Z.to_nat dbi) dbs empty_db) (upper nm) (FBulk nm :: rest) o with
+  | Some (r, d') => out_recs now d' (upper nm) (FBulk nm :: rest) r
+  | None => []
+  end.
+Proof. intros H. unfold dout_recs. split_special H. reflexivity. Qed.
+Lemma step_fresh now dbs dbi nm rest o : lfresh_all now dbs ->
+  step_dbs now dbs dbi (FBulk nm :: rest) o = dstep_dbs now dbs dbi (FBulk nm :: rest) o.
+Proof. intros F. unfold step_dbs. rewrite pre_dbs_fresh by exact F. reflexivity. Qed.
+Lemma xout_fresh now dbs x : lfresh_all now dbs -> xout_recs now dbs x = dout_recs now dbs (x_db x) (x_parts x) (x_or x).
+Proof.
+  intros F. unfold xout_recs. destruct (x_parts x) as [|[] rest]; try reflexivity.
+  destruct (x_lazy x); [rewrite pre_dbs_fresh by exact F|]; reflexivity.
+Qed.
+Lemma out_recs_plain now d' name parts r : by_outcome name parts = false -> ttl_recorded name = false ->
+  out_recs now d' name parts r = [].
+Proof. intros H1 H2. unfold out_recs. rewrite H1, H2. reflexivity. Qed.
+
+(** ---- SPOP ---- *)
+Lemma exec_spop now d parts o : exec_db now d (bs "SPOP") parts o = Some (h_spop d parts o).
+Proof. reflexivity. Qed.
+Lemma exec_srem now d parts o : exec_db now d (bs "SREM") parts o = Some (h_skipping e_srem d parts).
+Proof. reflexivity. Qed.
+Lemma srem_head p parts r : deterministic_form (bs "SPOP") parts r = Some p ->
+  exists kf ms, p = FBulk (bs "SREM") :: kf :: ms.
+Proof.
+  rewrite spop_form. destruct (nth_error parts 1) as [kf|]; [|discriminate]. unfold spop_rec.
+  destruct r; try discriminate; [intros H; inversion H; eauto|]. destruct l; [discriminate|]. intros H; inversion H; eauto.
+Qed.
+Lemma item_spop t now' d1 d2 dbi nm rest o :
+  upper nm = bs "SPOP" -> sims d1 d2 -> lfresh_all t d1 -> lfresh_all now' d2 ->
+  sims (step_dbs t d1 dbi (FBulk nm :: rest) o)
+       (redo_dbs now' dbi (map (fun r => (r, None)) (dout_recs t d1 dbi (FBulk nm :: rest) o)) d2).
+Proof.
+  intros Hn H F1 F2.
+  rewrite (step_fresh t d1 dbi nm rest o F1), dstep_exec, dout_exec by (rewrite Hn; reflexivity).
+  set (p := FBulk nm :: rest). rewrite Hn, exec_spop. destruct (h_spop (nth (Z.to_nat dbi) d1 empty_db) p o) as [r x1] eqn:E.
+  unfold out_recs. change (by_outcome (bs "SPOP") p) with true. change (ttl_recorded (bs "SPOP")) with false.
+  cbn [andb]. rewrite app_nil_r.
+  destruct (deterministic_form (bs "SPOP") p r) as [rec|] eqn:Ef; cbn [map redo_dbs fold_left fst snd].
+  - destruct (srem_head _ _ _ Ef) as (kf & ms & ->).
+    rewrite (step_fresh now' d2 dbi _ _ None F2), dstep_exec by reflexivity.
+    change (upper (bs "SREM")) with (bs "SREM"). rewrite exec_srem.
+    destruct (h_skipping e_srem (nth (Z.to_nat dbi) d2 empty_db) (FBulk (bs "SREM") :: kf :: ms)) as [r2 x2] eqn:E2.
+    apply sims_list_set_cond; [exact H|]. intros _.
+    rewrite <- (spop_as_srem _ _ _ _ _ _ E Ef). change x2 with (snd (r2, x2)). rewrite <- E2.
+    apply h_skipping_sim. apply sims_nth. exact H.
+  - apply sims_list_set_left; [exact H|]. intros _.
+    eapply sim_trans; [apply sim_ext; exact (spop_quiet _ _ _ _ _ E Ef)|apply sims_nth; exact H].
+Qed.
+
+(** ---- XADD with the ID * ---- *)
+Lemma exec_xadd now d parts o : exec_db now d (bs "XADD") parts o = Some (h_xadd d parts o).
+Proof. reflexivity. Qed.
+Lemma item_xadd t now' d1 d2 dbi nm rest o :
+  upper nm = bs "XADD" -> by_outcome (bs "XADD") (FBulk nm :: rest) = true ->
+  (forall k, nth_error (FBulk nm :: rest) 1 = Some (FBulk k) -> stream_fit (nth (Z.to_nat dbi) d1 empty_db) k) ->
+  sims d1 d2 -> lfresh_all t d1 -> lfresh_all now' d2 ->
+  sims (step_dbs t d1 dbi (FBulk nm :: rest) o)
+       (redo_dbs now' dbi (map (fun r => (r, None)) (dout_recs t d1 dbi (FBulk nm :: rest) o)) d2).
+Proof.
+  intros Hn Hb Hfit H F1 F2.
+  rewrite (step_fresh t d1 dbi nm rest o F1), dstep_exec, dout_exec by (rewrite Hn; reflexivity).
+  set (p := FBulk nm :: rest) in *. rewrite Hn, exec_xadd. destruct (h_xadd (nth (Z.to_nat dbi) d1 empty_db) p o) as [r x1] eqn:E.
+  unfold out_recs. rewrite Hb. change (ttl_recorded (bs "XADD")) with false. cbn [andb]. rewrite app_nil_r.
+  destruct (deterministic_form (bs "XADD") p r) as [rec|] eqn:Ef; cbn [map redo_dbs fold_left fst snd].
+  - pose proof (xadd_auto_as_explicit _ _ _ _ _ _ Hb Hfit E Ef) as Hx.
+    assert (Hrec : exists rest', rec = FBulk nm :: rest').
+    { rewrite xadd_form in Ef. unfold p in Ef. destruct rest as [|b [|c rest']]; try discriminate. destruct r; try discriminate.
+      inversion Ef. eauto. }
+    destruct Hrec as (rest' & ->).
+    rewrite (step_fresh now' d2 dbi _ _ None F2), dstep_exec by (rewrite Hn; reflexivity).
+    rewrite Hn, exec_xadd.
+    destruct (h_xadd (nth (Z.to_nat dbi) d2 empty_db) (FBulk nm :: rest') None) as [r2 x2] eqn:E2.
+    apply sims_list_set_cond; [exact H|]. intros _.
+    rewrite <- Hx. change x2 with (snd (r2, x2)). rewrite <- E2.
+    apply h_xadd_sim. apply sims_nth. exact H.
+  - rewrite (xadd_quiet _ _ _ _ _ Hb E Ef). rewrite list_set_nth_same. exact H.
+Qed.
+
+(** ---- SET / SETEX / PSETEX / EXPIRE / PEXPIRE with their deadline record ---- *)
+Lemma exec_pexpireat now d parts o : exec_db now d (bs "PEXPIREAT") parts o = Some (h_pexpireat now d parts).
+Proof. reflexivity. Qed.
+Lemma ttl_not_special name : ttl_recorded name = true -> special8 name = false /\ by_outcome name = (fun _ => false) /\ beq name (bs "EVALSHA") = false /\ bmem name write_commands = true.
+Proof.
+  unfold ttl_recorded. intros H.
+  destruct (beq name (bs "SET")) eqn:E1; [apply beq_eq in E1; subst name; repeat split; reflexivity|].
+  destruct (beq name (bs "SETEX")) eqn:E2; [apply beq_eq in E2; subst name; repeat split; reflexivity|].
+  destruct (beq name (bs "PSETEX")) eqn:E3; [apply beq_eq in E3; subst name; repeat split; reflexivity|].
+  destruct (beq name (bs "EXPIRE")) eqn:E4; [apply beq_eq in E4; subst name; repeat split; reflexivity|].
+  cbn [orb] in H. apply beq_eq in H. subst name. repeat split; reflexivity.
+Qed.
+(** the PEXPIREAT record of a deadline that is still ahead and fits an i64 *)
+Lemma pexpireat_redo now d k D : now < D -> in_i64 D = true ->
+  snd (h_pexpireat now d (pexpireat_record k D)) = snd (eng_expire now d k (D - now)).
+Proof.
+  intros Hlt Hr. unfold h_pexpireat, pexpireat_record.
+  change (nparts [FBulk (bs "PEXPIREAT"); FBulk k; FBulk (print_int D)]) with 3. cbn [Z.eqb negb Pos.eqb].
+  cbn [nth_arg nth_error arg_bytes]. rewrite (parse_i64_print D Hr). replace (D <=? now) with false by lia.
+  destruct (eng_expire now d k (D - now)). reflexivity.
+Qed.
+Lemma item_ttl t now' d1 d2 dbi nm rest o :
+  t <= now' -> ttl_recorded (upper nm) = true -> sims d1 d2 -> lfresh_all t d1 -> lfresh_all now' d2 ->
+  lfresh_all now' (step_dbs t d1 dbi (FBulk nm :: rest) o) ->
+  (forall k rem, nth_error (FBulk nm :: rest) 1 = Some (FBulk k) ->
+     eng_ttl t (nth (Z.to_nat dbi) (step_dbs t d1 dbi (FBulk nm :: rest) o) empty_db) k = Some rem -> in_i64 (t + rem) = true) ->
+  sims (step_dbs t d1 dbi (FBulk nm :: rest) o)
+       (redo_dbs now' dbi ((FBulk nm :: rest, o) :: map (fun r => (r, None)) (dout_recs t d1 dbi (FBulk nm :: rest) o)) d2).
+Proof.
+  intros Ht Hn H F1 F2 Fp Hfit. destruct (ttl_not_special _ Hn) as (Hs & Hb & _ & _).
+  rewrite (step_fresh t d1 dbi nm rest o F1), dstep_exec in * by exact Hs.
+  rewrite dout_exec in * by exact Hs.
+  set (i := Z.to_nat dbi) in *.
+  destruct (exec_db_ttl t (nth i d1 empty_db) (upper nm) (FBulk nm :: rest) o Hn (F1 i)) as (r1 & E1 & Herr1 & Hkey1).
+  destruct (exec_db_ttl now' (nth i d2 empty_db) (upper nm) (FBulk nm :: rest) o Hn (F2 i)) as (r2 & E2 & _ & _).
+  rewrite E1 in *. rewrite <- (ttl_plan_sim (upper nm) _ _ (FBulk nm :: rest) (sims_nth d1 d2 i H)) in E2.
+  set (pl := ttl_plan (upper nm) (nth i d1 empty_db) (FBulk nm :: rest)) in *.
+  cbn [redo_dbs fold_left fst snd]. rewrite (step_fresh now' d2 dbi nm rest o F2), dstep_exec by exact Hs. fold i. rewrite E2.
+  unfold out_recs in *. rewrite Hb in *. cbn [app] in *.
+  destruct (negb (is_err r1)) eqn:Er; rewrite Hn in *; cbn [andb] in *.
+  2:{ (* refused: nothing done, no record *)
+    apply negb_false_iff in Er. rewrite (Herr1 Er) in *. cbn [run_plan map fold_left].
+    apply sims_list_set_cond; [exact H|]. intros _. apply sims_nth. exact H. }
+  unfold plan_key in Hkey1.
+  destruct (nth_error (FBulk nm :: rest) 1) as [[| | |k| | | | | | | | |]|] eqn:Ek;
+    try (rewrite Hkey1 in *; cbn [run_plan map fold_left]; apply sims_list_set_cond; [exact H|]; intros _; apply sims_nth; exact H).
+  (* the key of the command *)
+  assert (Len : (i < length d1)%nat \/ ~ (i < length d1)%nat) by lia. destruct Len as [Len|Len].
+  2:{ (* no such database: nothing is stored on either side *)
+    assert (G : forall a x, sims d1 a -> list_set a i x = a).
+    { intros a x Ha. apply list_set_beyond. rewrite <- (sims_length _ _ Ha). exact Len. }
+    rewrite (G d1 _ (sims_refl d1)), (G d2 _ H).
+    clear - H G F2 Hs. revert H. generalize (eng_ttl t (run_plan t (nth i d1 empty_db) pl) k). intros [rem|] H; cbn [map fold_left fst snd]; [|exact H].
+    unfold pexpireat_record. rewrite (step_fresh now' d2 dbi _ _ None F2), dstep_exec by reflexivity.
+    destruct (exec_db _ _ _ _ _) as [[? ?]|]; [rewrite (G d2 _ H)|]; exact H. }
+  pose proof (lfresh_all_post now' d1 i _ Fp Len) as Fx.
+  destruct (plan_redo t now' _ _ pl k Ht (sims_nth d1 d2 i H) Hkey1 (F2 i) Fx) as [Fx2 Hp].
+  destruct (eng_ttl t (run_plan t (nth i d1 empty_db) pl) k) as [rem|] eqn:Et; cbn [map fold_left fst snd].
+  - destruct Hp as [Hlt Hsim].
+    assert (Hr : in_i64 (t + rem) = true).
+    { apply (Hfit k rem eq_refl). rewrite nth_list_set_same by exact Len. exact Et. }
+    assert (F2' : lfresh_all now' (list_set d2 i (run_plan now' (nth i d2 empty_db) pl))) by (apply lfresh_all_list_set; assumption).
+    unfold pexpireat_record at 1. rewrite (step_fresh now' _ dbi _ _ None F2'), dstep_exec by reflexivity.
+    change (upper (bs "PEXPIREAT")) with (bs "PEXPIREAT"). rewrite exec_pexpireat.
+    fold (pexpireat_record k (t + rem)).
+    destruct (h_pexpireat now' _ (pexpireat_record k (t + rem))) as [r3 x3] eqn:E3.
+    rewrite list_set_twice. apply sims_list_set_cond; [exact H|]. intros _.
+    change x3 with (snd (r3, x3)). rewrite <- E3.
+    rewrite nth_list_set_same by (rewrite <- (sims_length _ _ H); exact Len).
+    rewrite (pexpireat_redo now' _ k (t + rem) Hlt Hr). exact Hsim.
+  - apply sims_list_set_cond; [exact H|]. intros _. exact Hp.
+Qed.
+
+(** ---- PEXPIREAT sent by a client ---- *)
+Lemma h_pexpireat_sim t1 t2 d1 d2 parts : t1 <= t2 -> sim d1 d2 ->
+  lfresh t2 (snd (h_pexpireat t1 d1 parts)) ->
+  sim (snd (h_pexpireat t1 d1 parts)) (snd (h_pexpireat t2 d2 parts)).
+Proof.
+  intros Ht H Fx. unfold h_pexpireat in *. destruct (negb (nparts parts =? 3)); [exact H|].
+  destruct (nth_arg parts 1) as [k|]; [|exact H]. destruct (nth_arg parts 2) as [a|]; [|exact H].
+  destruct (parse_i64 a) as [T|]; [|exact H].
+  pose proof (sim_lookup d1 d2 k H) as R.
+  destruct (T <=? t1) eqn:E1.
+  - replace (T <=? t2) with true by lia.
+    pose proof (eng_delete_sim' d1 d2 k H) as Hs. destruct (eng_delete d1 k), (eng_delete d2 k). exact Hs.
+  - destruct (get_entry d1 k) as [e1|] eqn:G1.
+    + (* the key is there: its deadline T is still ahead at t2 *)
+      assert (HT : t2 < T).
+      { unfold eng_expire in Fx. rewrite G1 in Fx. cbn [snd] in Fx. specialize (Fx k). unfold was_expired in Fx.
+        rewrite get_entry_index, get_entry_put_same in Fx. unfold expired in Fx. cbn [e_exp] in Fx. lia. }
+      replace (T <=? t2) with false by lia.
+      destruct (eng_expire_abs t1 t2 d1 d2 k T H) as [_ Hs].
+      destruct (eng_expire t1 d1 k (T - t1)), (eng_expire t2 d2 k (T - t2)). exact Hs.
+    + (* no such key: nothing happens at either clock reading *)
+      destruct (get_entry d2 k) as [e2|] eqn:G2; cbn [orel] in R; [contradiction|].
+      unfold eng_expire, eng_delete. rewrite G1, G2. destruct (T <=? t2); exact H.
+Qed.
+Lemma item_pexpireat t now' d1 d2 dbi nm rest o :
+  t <= now' -> upper nm = bs "PEXPIREAT" -> sims d1 d2 -> lfresh_all t d1 -> lfresh_all now' d2 ->
+  lfresh_all now' (step_dbs t d1 dbi (FBulk nm :: rest) o) ->
+  sims (step_dbs t d1 dbi (FBulk nm :: rest) o) (step_dbs now' d2 dbi (FBulk nm :: rest) o).
+Proof.
+  intros Ht Hn H F1 F2 Fp.
+  rewrite (step_fresh t d1 dbi nm rest o F1), dstep_exec in * by (rewrite Hn; reflexivity).
+  rewrite (step_fresh now' d2 dbi nm rest o F2), dstep_exec by (rewrite Hn; reflexivity).
+  rewrite Hn, !exec_pexpireat in *.
+  destruct (h_pexpireat t (nth (Z.to_nat dbi) d1 empty_db) (FBulk nm :: rest)) as [r1 x1] eqn:E1.
+  destruct (h_pexpireat now' (nth (Z.to_nat dbi) d2 empty_db) (FBulk nm :: rest)) as [r2 x2] eqn:E2.
+  apply sims_list_set_cond; [exact H|]. intros Len.
+  change x1 with (snd (r1, x1)). change x2 with (snd (r2, x2)). rewrite <- E1, <- E2.
+  apply h_pexpireat_sim; [exact Ht|apply sims_nth; exact H|]. rewrite E1. cbn [snd].
+  exact (lfresh_all_post now' d1 _ x1 Fp Len).
+Qed.
+
+(** ================= the redo at any later clock reading ================= *)
+Definition timeless (x : item) : bool := negb (mem_name (cmd_name (x_parts x)) untimed_excluded).
+(** the deadline written to the file after a TTL command fits the i64 its reader parses *)
+Definition deadline_fits (t : Z) (dbs : list db) (x : item) : bool :=
+  if ttl_recorded (cmd_name (x_parts x)) then
+    match nth_error (x_parts x) 1 with
+    | Some (FBulk k) =>
+        match eng_ttl t (nth (Z.to_nat (x_db x)) (xstep_dbs t dbs x) empty_db) k with
+        | Some rem => in_i64 (t + rem)
+        | None => true
+        end
+    | _ => true
+    end
+  else true.
+(** XADD with the ID *: the stream under the key satisfies the stream invariant *)
+Definition auto_fit (d1 : list db) (x : item) : Prop :=
+  by_outcome (cmd_name (x_parts x)) (x_parts x) = true ->
+  forall k, nth_error (x_parts x) 1 = Some (FBulk k) -> stream_fit (nth (Z.to_nat (x_db x)) d1 empty_db) k.
+
+Lemma dout_recs_plain now dbs dbi nm rest o :
+  by_outcome (upper nm) (FBulk nm :: rest) = false -> ttl_recorded (upper nm) = false ->
+  dout_recs now dbs dbi (FBulk nm :: rest) o = [].
+Proof.
+  intros Hb Ht. unfold dout_recs.
+  repeat match goal with |- (if ?c then _ else _) = _ => destruct c; [reflexivity|] end.
+  destruct (exec_db _ _ _ _ _) as [[r d']|]; [apply out_recs_plain; assumption|reflexivity].
+Qed.
+
+Lemma item_sims t now' x d1 d2 :
+  t <= now' -> sims d1 d2 -> lfresh_all now' d1 -> lfresh_all now' (xstep_dbs t d1 x) ->
+  timeless x = true -> deadline_fits t d1 x = true -> auto_fit d1 x ->
+  sims (xstep_dbs t d1 x) (redo_dbs now' (x_db x) (xorecs t d1 x) d2).
+Proof.
+  intros Ht H Fn Fp Htl Hfit Hauto. unfold deadline_fits in Hfit.
+  pose proof (lfresh_all_mono t now' d1 Ht Fn) as F1. pose proof (sims_lfresh now' d1 d2 H Fn) as F2.
+  rewrite (xstep_is_step t d1 x F1) in *. unfold xorecs. rewrite (xout_fresh t d1 x F1) in *.
+  unfold timeless, auto_fit, deadline_fits in *. apply negb_true_iff in Htl.
+  destruct (x_parts x) as [|first rest] eqn:Ep; [exact H|]. destruct first; try exact H.
+  unfold cmd_name in *. set (dbi := x_db x) in *. set (o := x_or x) in *.
+  destruct (by_outcome (upper b) (FBulk b :: rest)) eqn:Hb.
+  - (* logged by outcome *)
+    assert (Hv : verb_recs (FBulk b :: rest) = []).
+    { unfold verb_recs, logs_before. rewrite Hb. rewrite andb_false_r. reflexivity. }
+    rewrite Hv. cbn [map app].
+    pose proof Hb as Hb'. unfold by_outcome in Hb'. destruct (beq (upper b) (bs "SPOP")) eqn:E.
+    + apply beq_eq in E. apply item_spop; assumption.
+    + cbn [orb] in Hb'. apply andb_prop in Hb' as [E2 _]. apply beq_eq in E2.
+      apply item_xadd; try assumption; [rewrite <- E2; exact Hb|]. apply Hauto. reflexivity.
+  - destruct (ttl_recorded (upper b)) eqn:Htr.
+    + (* a time to live *)
+      destruct (ttl_not_special _ Htr) as (_ & _ & He & Hm).
+      assert (Hv : verb_recs (FBulk b :: rest) = [FBulk b :: rest]).
+      { unfold verb_recs, logs_before. rewrite Hm, Hb, He. reflexivity. }
+      rewrite Hv. cbn [map app]. apply item_ttl; try assumption.
+      intros k rem Hk Hrem. rewrite Hk in Hfit. fold dbi in Hfit. rewrite Hrem in Hfit. exact Hfit.
+    + rewrite (dout_recs_plain t d1 dbi b rest o Hb Htr). cbn [map]. rewrite app_nil_r.
+      destruct (beq (upper b) (bs "PEXPIREAT")) eqn:Hx.
+      * apply beq_eq in Hx.
+        assert (Hv : verb_recs (FBulk b :: rest) = [FBulk b :: rest]).
+        { unfold verb_recs, logs_before. rewrite Hb, Hx. reflexivity. }
+        rewrite Hv. cbn [map redo_dbs fold_left fst snd]. apply item_pexpireat; assumption.
+      * unfold verb_recs. destruct (logs_before (upper b) (FBulk b :: rest)) eqn:L; cbn [map redo_dbs fold_left fst snd].
+        -- apply step_dbs_sim; assumption.
+        -- rewrite (unrecorded_inert t d1 dbi (FBulk b :: rest) o); [exact H| |exact Hb|exact F1].
+           unfold verb_recs. rewrite L. reflexivity.
+Qed.
+
+Lemma xorecs_writes t d x : Forall (fun po => is_write (fst po) = true) (xorecs t d x).
+Proof.
+  unfold xorecs. apply Forall_app. split.
+  - unfold verb_recs. destruct (x_parts x) as [|[] rest]; try constructor.
+    destruct (logs_before (upper b) (FBulk b :: rest)) eqn:L; constructor; [|constructor].
+    cbn [fst]. apply is_logged_write. exact L.
+  - unfold xout_recs. destruct (x_parts x) as [|[] rest] eqn:Ep; try constructor.
+    generalize (if x_lazy x then pre_dbs t d (x_db x) (upper b) (FBulk b :: rest) else d). intros d0.
+    unfold dout_recs.
+    repeat match goal with |- Forall _ (map _ (if ?c then _ else _)) => destruct c; [constructor|] end.
+    destruct (exec_db _ _ _ _ _) as [[r d']|]; [|constructor].
+    unfold out_recs. rewrite map_app. apply Forall_app. split.
+    + destruct (by_outcome (upper b) (FBulk b :: rest)) eqn:Hb; [|constructor].
+      destruct (deterministic_form (upper b) (FBulk b :: rest) r) as [rec|] eqn:Ef; constructor; [|constructor].
+      cbn [fst]. unfold by_outcome in Hb. destruct (beq (upper b) (bs "SPOP")) eqn:E.
+      * apply beq_eq in E. rewrite E in Ef. destruct (srem_head _ _ _ Ef) as (kf & ms & ->). reflexivity.
+      * cbn [orb] in Hb. apply andb_prop in Hb as [E2 _]. apply beq_eq in E2. rewrite E2 in Ef.
+        rewrite xadd_form in Ef. destruct rest as [|x1 [|x2 rest']]; try discriminate. destruct r; try discriminate.
+        inversion Ef. unfold is_write. rewrite E2. reflexivity.
+    + destruct (ttl_recorded (upper b) && negb (is_err r)); [|constructor].
+      destruct (nth_error (FBulk b :: rest) 1) as [[]|]; try constructor.
+      destruct (eng_ttl t d' b0); constructor; [reflexivity|constructor].
+Qed.
+
+Definition timed_item (now' : Z) (dbs : list db) (tx : titem) : bool :=
+  (fst tx <=? now') && timeless (snd tx) && fresh_all now' (xstep_dbs (fst tx) dbs (snd tx))
+  && deadline_fits (fst tx) dbs (snd tx).
+(** every clock reading of the history is at most [now'], every command is in the clock-independent
+    part, and NO DEADLINE OF THE LIVE RUN HAS PASSED AT [now']: every state the live server went
+    through is without entries that are expired at the time of the redo *)
+Fixpoint timed_run (now' : Z) (tr : list titem) (dbs : list db) : bool :=
+  match tr with
+  | [] => fresh_all now' dbs
+  | tx :: r => fresh_all now' dbs && timed_item now' dbs tx && timed_run now' r (xstep_dbs (fst tx) dbs (snd tx))
+  end.
+Fixpoint fits_run (tr : list titem) (dbs : list db) : Prop :=
+  match tr with
+  | [] => True
+  | (t, x) :: r => auto_fit dbs x /\ fits_run r (xstep_dbs t dbs x)
+  end.
+
+Theorem trace_redo_any_time now' : forall tr dbs,
+  forallb (fun x => item_ok (snd x)) tr = true -> timed_run now' tr dbs = true -> fits_run tr dbs ->
+  sims (trace_dbs tr dbs) (snd (redo now' (trecs tr dbs None) (0, dbs))).
+Proof.
+  intros tr dbs Hok Hr Hf.
+  apply (trace_redo_rel sims now' (fun d => lfresh_all now' d)
+           (fun tx d => timed_item now' d tx = true /\ auto_fit d (snd tx)));
+    auto; [| | |apply sims_refl|discriminate|].
+  - (* SELECT *)
+    intros d1 d2 cur dbi F H Hd. rewrite step_dbs_unlogged; [exact H|apply select_unwritten|].
+    eapply sims_lfresh; eauto.
+  - intros t x d1 d2 F (Ht & Ha) Hi H. unfold timed_item in Ht. cbn [fst snd] in *.
+    apply andb_prop in Ht as [Ht Hd]. apply andb_prop in Ht as [Ht H3]. apply andb_prop in Ht as [H1 H2].
+    rewrite (redo_writes now' (x_db x) _ d2 (xorecs_writes t d1 x)). cbn [snd]. split; [reflexivity|].
+    apply item_sims; auto; [lia|apply fresh_lfresh_all; exact H3].
+  - intros t x d1 d2 F (Ht & Ha) H Hn. unfold timed_item in Ht. cbn [fst snd] in *.
+    apply andb_prop in Ht as [Ht Hd]. apply andb_prop in Ht as [Ht H3]. apply andb_prop in Ht as [H1 H2].
+    pose proof (item_sims t now' x d1 d2) as X. rewrite Hn in X. apply X; auto; [lia|apply fresh_lfresh_all; exact H3].
+  - clear Hok. revert dbs Hr Hf. induction tr as [|[t x] tr IH]; intros dbs Hr Hf; cbn [timed_run fits_run along] in *.
+    + apply fresh_lfresh_all; exact Hr.
+    + apply andb_prop in Hr as [Hr H3]. apply andb_prop in Hr as [H1 H2]. destruct Hf as (Ha & Hf).
+      split; [apply fresh_lfresh_all; exact H1|]. split; [auto|]. apply IH; assumption.
+Qed.
+
+(** THE REPLAY THEOREM at any later clock reading: in every one of the sixteen databases every
+    key has the same value AND THE SAME DEADLINE after the redo as on the live server *)
+Theorem replay_any_time now' h :
+  forallb (fun te => ev_ok (snd te)) h = true ->
+  timed_run now' (trace_of h) dbs0 = true -> fits_run (trace_of h) dbs0 ->
+  aof_log (run_tevs h) = map fst (trecs (trace_of h) dbs0 None) /\
+  forall i k, get_entry (nth i (s_dbs (replay_o now' (trecs (trace_of h) dbs0 None))) empty_db) k =
+              get_entry (nth i (s_dbs (run_tevs h)) empty_db) k.
+Proof.
+  intros Hok Hr Hf. split; [apply history_file; exact Hok|].
+  intros i k. rewrite replay_redo, (history_dbs h Hok), run_trace_fst. symmetry.
+  apply sim_ext. apply sims_nth.
+  apply trace_redo_any_time; [|exact Hr|exact Hf].
+  exact (proj2 (history_is_trace h (init_server None) linv_init Hok)).
+Qed.
+
+(** ---- the side conditions as computable checks ---- *)
+Fixpoint sorted_b (es : list sentry) : bool :=
+  match es with [] => true | e :: r => forallb (fun y => sid_ltb (fst e) (fst y)) r && sorted_b r end.
+Definition sinv_b (s : stream) : bool :=
+  sorted_b (s_entries s) && forallb (fun e => sid_leb (fst e) (s_last s)) (s_entries s)
+  && sid_eqb (s_last s) (s_ams s, s_aseq s) && (s_len s =? len (s_entries s))
+  && (0 <=? fst (s_last s)) && (fst (s_last s) <=? u64_max) && (0 <=? snd (s_last s)) && (snd (s_last s) <=? u64_max).
+Lemma sorted_b_sorted es : sorted_b es = true -> sorted es.
+Proof.
+  induction es as [|e es IH]; intros H; [constructor|]. cbn [sorted_b] in H. apply andb_prop in H as [H1 H2].
+  constructor; [apply IH; exact H2|]. apply Forall_forall. intros y Hy. rewrite forallb_forall in H1.
+  unfold elt. apply sid_ltb_lt. exact (H1 y Hy).
+Qed.
+Lemma sinv_b_inv s : sinv_b s = true -> SInv s /\ in_u64 (s_last s).
+Proof.
+  unfold sinv_b. intros H.
+  repeat match type of H with (_ && _) = true => apply andb_prop in H; destruct H as [H ?] end.
+  split; [split|unfold in_u64; lia].
+  - apply sorted_b_sorted. exact H.
+  - apply Forall_forall. intros e He. rewrite forallb_forall in H6. apply sid_leb_le. exact (H6 e He).
+  - apply sid_eqb_eq. exact H5.
+  - lia.
+Qed.
+Definition auto_fit_b (d1 : list db) (x : item) : bool :=
+  negb (by_outcome (cmd_name (x_parts x)) (x_parts x)) ||
+  match nth_error (x_parts x) 1 with
+  | Some (FBulk k) => match raw_stream (nth (Z.to_nat (x_db x)) d1 empty_db) k with SStream _ s => sinv_b s | _ => true end
+  | _ => true
+  end.
+Fixpoint fits_b (tr : list titem) (dbs : list db) : bool :=
+  match tr with [] => true | (t, x) :: r => auto_fit_b dbs x && fits_b r (xstep_dbs t dbs x) end.
+Lemma fits_b_run : forall tr dbs, fits_b tr dbs = true -> fits_run tr dbs.
+Proof.
+  induction tr as [|[t x] tr IH]; intros dbs H; cbn [fits_b fits_run] in *; [exact I|].
+  apply andb_prop in H as [H1 H2]. split; [|apply IH; exact H2].
+  unfold auto_fit_b in H1. intros Hb k Hk. rewrite Hb, Hk in H1. cbn [negb orb] in H1.
+  unfold stream_fit. destruct (raw_stream _ k); try exact I. apply sinv_b_inv. exact H1.
+Qed.
+Corollary replay_any_time_b now' h :
+  forallb (fun te => ev_ok (snd te)) h = true ->
+  timed_run now' (trace_of h) dbs0 = true -> fits_b (trace_of h) dbs0 = true ->
+  aof_log (run_tevs h) = map fst (trecs (trace_of h) dbs0 None) /\
+  forall i k, get_entry (nth i (s_dbs (replay_o now' (trecs (trace_of h) dbs0 None))) empty_db) k =
+              get_entry (nth i (s_dbs (run_tevs h)) empty_db) k.
+Proof. intros H1 H2 H3. apply replay_any_time; [exact H1|exact H2|apply fits_b_run; exact H3]. Qed.
 
 (** ================= re-sending the file over a connection IS the redo ================= *)
 (** what the harness (and any external redo tool) does: the records of the file are sent as
@@ -677,35 +1361,213 @@ Proof.
   rewrite Hi. reflexivity.
 Qed.
 
-Definition resend_step (now : Z) (s : server) (parts : list frame) : server :=
-  snd (process_frame now s replay_conn (FArray parts) None).
-Definition resend (now : Z) (log : list (list frame)) : server := fold_left (resend_step now) log replay_init.
+Definition resend_step (now : Z) (s : server) (po : orec) : server :=
+  snd (process_frame now s replay_conn (FArray (fst po)) (snd po)).
+Definition resend (now : Z) (log : list orec) : server := fold_left (resend_step now) log replay_init.
 Lemma resend_is_replay now log :
-  forallb file_record log = true -> resend now log = replay now log.
+  forallb (fun po => file_record (fst po)) log = true -> resend now log = replay_o now log.
 Proof.
-  unfold resend, replay, replay_o, no_oracle.
-  assert (G : forall l s, forallb file_record l = true -> s_password s = None ->
+  unfold resend, replay_o.
+  assert (G : forall l s, forallb (fun po => file_record (fst po)) l = true -> s_password s = None ->
                 (exists cn, zlookup replay_conn (s_conns s) = Some cn /\ c_intx cn = false) ->
-                fold_left (resend_step now) l s = fold_left (replay_step now) (map (fun p => (p, None)) l) s).
-  { induction l as [|p l IH]; intros s Hl Hp (cn & Hc & Hi); [reflexivity|].
-    cbn [forallb] in Hl. apply andb_prop in Hl as [Hl1 Hl2]. cbn [map fold_left].
+                fold_left (resend_step now) l s = fold_left (replay_step now) l s).
+  { induction l as [|[p o] l IH]; intros s Hl Hp (cn & Hc & Hi); [reflexivity|].
+    cbn [forallb fst] in Hl. apply andb_prop in Hl as [Hl1 Hl2]. cbn [fold_left].
     unfold resend_step at 2. unfold replay_step at 2. cbn [fst snd]. unfold conn_db. rewrite Hc.
-    rewrite (resend_is_normal now s cn p None Hl1 Hp Hc Hi).
-    destruct (nc_conn now s replay_conn (c_db cn) p None cn Hp Hc) as (Hp' & (cn' & Hc' & _ & Hi' & _) & _).
+    rewrite (resend_is_normal now s cn p o Hl1 Hp Hc Hi).
+    destruct (nc_conn now s replay_conn (c_db cn) p o cn Hp Hc) as (Hp' & (cn' & Hc' & _ & Hi' & _) & _).
     apply IH; [exact Hl2|exact Hp'|]. exists cn'. rewrite Hi', Hi. auto. }
   intros Hl. apply G; [exact Hl|reflexivity|]. eexists. split; reflexivity.
 Qed.
 (** the file of a history holds records only *)
-Lemma recs_records : forall cmds last, forallb file_record (recs last cmds) = true.
+Lemma write_is_record p : is_write p = true -> file_record p = true.
 Proof.
-  induction cmds as [|[dbi p] cmds IH]; intros last; cbn [recs]; [reflexivity|].
-  destruct (is_logged p) eqn:Lp; [|apply IH].
-  assert (Hp : file_record p = true).
-  { unfold file_record, is_logged in *. destruct p as [|[] ?]; try discriminate.
-    unfold mem_name in *. cbn [bmem]. rewrite Lp. apply orb_true_r. }
-  destruct (same_db last dbi); cbn [app forallb]; rewrite ?Hp, IH; reflexivity.
+  unfold is_write, file_record. destruct p as [|[] ?]; try discriminate.
+  unfold mem_name. cbn [bmem]. intros H. rewrite H. apply orb_true_r.
+Qed.
+Lemma trecs_records : forall tr dbs last, forallb (fun po => file_record (fst po)) (trecs tr dbs last) = true.
+Proof.
+  induction tr as [|[t x] tr IH]; intros dbs last; cbn [trecs]; [reflexivity|].
+  rewrite !forallb_app, IH, andb_true_r. apply andb_true_intro. split.
+  - unfold sel_recs. destruct (xorecs t dbs x); [reflexivity|]. destruct (same_db last (x_db x)); reflexivity.
+  - apply forallb_forall. intros po Hin. pose proof (xorecs_writes t dbs x) as W. rewrite Forall_forall in W.
+    apply write_is_record. exact (W po Hin).
 Qed.
 Lemma history_resend now h :
+  resend now (trecs (trace_of h) dbs0 None) = replay_o now (trecs (trace_of h) dbs0 None).
+Proof. apply resend_is_replay. apply trecs_records. Qed.
+
+(** ================= start-up: the dataset after a restart is the redo of the file ================= *)
+(** (Model/Aof.v [restart_o]: AofEngine::load replays the records - 831b342; the oracles are the
+    model's device for the f64 values of sorted-set arguments) *)
+Lemma restart_is_redo now s ol : s_dbs (restart_o now s ol) = s_dbs (replay_o now ol).
+Proof. reflexivity. Qed.
+Lemma restart_keeps_file now s ol : aof_log (restart_o now s ol) = aof_log s.
+Proof. reflexivity. Qed.
+(** after a history and a restart at any later clock reading, every key of every database is
+    back with its value and its deadline - under the conditions of [replay_any_time] *)
+Theorem restart_recovers now' h :
   forallb (fun te => ev_ok (snd te)) h = true ->
-  resend now (aof_log (run_tevs h)) = replay now (aof_log (run_tevs h)).
-Proof. intros Hok. apply resend_is_replay. rewrite (history_file h Hok). apply recs_records. Qed.
+  timed_run now' (trace_of h) dbs0 = true -> fits_run (trace_of h) dbs0 ->
+  forall i k, get_entry (nth i (s_dbs (restart_o now' (run_tevs h) (trecs (trace_of h) dbs0 None))) empty_db) k =
+              get_entry (nth i (s_dbs (run_tevs h)) empty_db) k.
+Proof. intros H1 H2 H3. rewrite restart_is_redo. exact (proj2 (replay_any_time now' h H1 H2 H3)). Qed.
+
+(** ================= EVALSHA (Model/RunLua.v, a8393c5) ================= *)
+(** EVALSHA of a cached script leaves exactly the record of the EVAL of that script; a digest
+    that names no script leaves none *)
+Lemma evalsha_record t s c dbi ca nm h nk rest sha src :
+  str_arg h = Some sha -> alookup (lower sha) ca = Some src ->
+  s_aof (snd (h_evalsha t s c dbi ca (FBulk nm :: h :: nk :: rest))) =
+  aof_push (s_aof s) dbi (FBulk (bs "EVAL") :: FBulk src :: nk :: rest).
+Proof.
+  intros Hs Hc. unfold h_evalsha. rewrite Hs, Hc.
+  change (mem_name (bs "EVALSHA") write_commands) with true. cbv iota.
+  destruct (normal_command t s c (evalsha_db dbi) (FBulk (bs "EVAL") :: FBulk src :: nk :: rest) None) as [r s1].
+  cbn [snd]. rewrite s_aof_log_aof_in. reflexivity.
+Qed.
+Lemma evalsha_unknown t s c dbi ca nm h nk rest sha :
+  str_arg h = Some sha -> alookup (lower sha) ca = None ->
+  snd (h_evalsha t s c dbi ca (FBulk nm :: h :: nk :: rest)) = s.
+Proof. intros Hs Hc. unfold h_evalsha. rewrite Hs, Hc. reflexivity. Qed.
+
+(** ================= witnesses ================= *)
+Definition cmd (args : list bytes) : frame := FArray (map FBulk args).
+Definition hist (cs : list (list bytes)) : list tev := (0, EConn 1) :: map (fun a => (0, EFrame 1 (cmd a) None)) cs.
+Definition set_src : bytes :=
+  bs "local r={}" ++ [10] ++ bs "r[1]=redis.call(""\083\069\084"",KEYS[1],ARGV[1])" ++ [10] ++ bs "return r[1]".
+
+(** one clock reading: the formerly unlogged writers, databases other than 0, a consumer group
+    (its pending entries carry the clock), a script, a transaction with a queued SELECT *)
+Definition plain_history : list tev :=
+  map (fun e => (7, e))
+  [EConn 1; EConn 2;
+   EFrame 1 (cmd [bs "SET"; bs "k"; bs "a"]) None;
+   EFrame 1 (cmd [bs "GETSET"; bs "k"; bs "b"]) None;
+   EFrame 1 (cmd [bs "HMSET"; bs "h"; bs "f"; bs "1"]) None;
+   EFrame 2 (cmd [bs "SELECT"; bs "1"]) None;
+   EFrame 2 (cmd [bs "XADD"; bs "x"; bs "1-1"; bs "f"; bs "v"]) None;
+   EFrame 2 (cmd [bs "XGROUP"; bs "CREATE"; bs "x"; bs "g"; bs "0"]) None;
+   EFrame 2 (cmd [bs "XREADGROUP"; bs "GROUP"; bs "g"; bs "c"; bs "STREAMS"; bs "x"; bs ">"]) None;
+   EFrame 1 (cmd [bs "EVAL"; set_src; bs "1"; bs "e"; bs "v"]) None;
+   EFrame 1 (cmd [bs "MULTI"]) None;
+   EFrame 1 (cmd [bs "RPUSH"; bs "l"; bs "x"; bs "y"]) None;
+   EFrame 1 (cmd [bs "INCR"; bs "l"]) None;
+   EFrame 1 (cmd [bs "SELECT"; bs "15"]) None;
+   EFrame 1 (cmd [bs "APPEND"; bs "k"; bs "c"]) None;
+   EFrame 1 (cmd [bs "GET"; bs "k"]) None;
+   EFrame 1 (cmd [bs "EXEC"]) None;
+   EFrame 1 (cmd [bs "LPOP"; bs "nolist"]) None;
+   EClose 2].
+Lemma plain_history_ok :
+  forallb (fun te => ev_ok (snd te)) plain_history = true /\
+  plain_run 7 (trace_of plain_history) dbs0 = true /\
+  len (aof_log (run_tevs plain_history)) = 15 /\
+  len (d_data (nth 0 (s_dbs (run_tevs plain_history)) empty_db)) = 4 /\
+  len (d_data (nth 1 (s_dbs (run_tevs plain_history)) empty_db)) = 1 /\
+  len (d_data (nth 15 (s_dbs (run_tevs plain_history)) empty_db)) = 1.
+Proof. repeat (apply conj; [vm_compute; reflexivity|]). vm_compute; reflexivity. Qed.
+
+(** clock readings spread over an hour, every kind of record: deadlines (SET EX, SETEX, EXPIRE,
+    PEXPIRE, a refused SET NX on a key with a deadline), SPOP and XADD * with the outcomes the
+    implementation reported, a pop served to a waiting client, a PEXPIREAT sent by a client, an
+    XADD * on an existing stream; the redo a day later *)
+Definition day : Z := 86400000.
+Definition timed_history : list tev :=
+  [(0, EConn 1); (0, EConn 2);
+   (1000, EFrame 1 (cmd [bs "SET"; bs "k"; bs "a"; bs "EX"; bs "100000"]) None);
+   (1500, EFrame 2 (cmd [bs "SELECT"; bs "2"]) None);
+   (1600, EFrame 1 (cmd [bs "SADD"; bs "s"; bs "a"; bs "b"; bs "c"]) None);
+   (1700, EFrame 1 (cmd [bs "SPOP"; bs "s"; bs "2"]) (Some (FArray [FBulk (bs "c"); FBulk (bs "a")])));
+   (1800, EFrame 1 (cmd [bs "XADD"; bs "x"; bs "*"; bs "f"; bs "v"]) (Some (FBulk (bs "1800-0"))));
+   (2000, EFrame 2 (cmd [bs "MULTI"]) None);
+   (2500, EFrame 2 (cmd [bs "RPUSH"; bs "l"; bs "x"; bs "y"]) None);
+   (2600, EFrame 2 (cmd [bs "SETEX"; bs "t"; bs "90000"; bs "v"]) None);
+   (60000, EFrame 1 (cmd [bs "GETSET"; bs "k"; bs "b"]) None);
+   (3600000, EFrame 2 (cmd [bs "EXEC"]) None);
+   (3600001, EServed 2 true (bs "l"));
+   (3600002, EFrame 2 (cmd [bs "EXPIRE"; bs "l"; bs "500000"]) None);
+   (3600003, EFrame 1 (cmd [bs "PEXPIRE"; bs "k"; bs "100000000"]) None);
+   (3600004, EFrame 1 (cmd [bs "SET"; bs "k"; bs "c"; bs "NX"]) None);
+   (3600005, EFrame 1 (cmd [bs "PEXPIREAT"; bs "s"; bs "99999999999"]) None);
+   (3600006, EFrame 1 (cmd [bs "SPOP"; bs "nokey"]) None);
+   (3600007, EFrame 1 (cmd [bs "XADD"; bs "x"; bs "*"; bs "g"; bs "w"]) (Some (FBulk (bs "3600007-0"))));
+   (3600007, EFrame 1 (cmd [bs "XADD"; bs "x"; bs "*"; bs "g"; bs "w"]) (Some (FBulk (bs "3600007-1"))))].
+Lemma timed_history_ok :
+  forallb (fun te => ev_ok (snd te)) timed_history = true /\
+  timed_run day (trace_of timed_history) dbs0 = true /\
+  fits_b (trace_of timed_history) dbs0 = true /\
+  len (aof_log (run_tevs timed_history)) = 22 /\
+  (* the SPOP as the SREM of what it returned, the XADD * with its ID, the served pop, a deadline *)
+  In [FBulk (bs "SREM"); FBulk (bs "s"); FBulk (bs "a"); FBulk (bs "c")] (aof_log (run_tevs timed_history)) /\
+  In [FBulk (bs "XADD"); FBulk (bs "x"); FBulk (bs "1800-0"); FBulk (bs "f"); FBulk (bs "v")] (aof_log (run_tevs timed_history)) /\
+  In [FBulk (bs "LPOP"); FBulk (bs "l")] (aof_log (run_tevs timed_history)) /\
+  In [FBulk (bs "PEXPIREAT"); FBulk (bs "k"); FBulk (bs "100001000")] (aof_log (run_tevs timed_history)) /\
+  (* nothing of the random commands as they were sent *)
+  existsb (fun p => match p with FBulk n :: _ => beq n (bs "SPOP") | _ => false end) (aof_log (run_tevs timed_history)) = false.
+Proof.
+  repeat (apply conj; [vm_compute; reflexivity|]).
+  repeat (apply conj; [vm_compute; tauto|]). vm_compute; reflexivity.
+Qed.
+
+(** THE ONE OPEN CLASS.  No record is written when a key expires: commands that ran while the
+    key was alive and are redone after its deadline act on another dataset.  k is set with
+    300 ms to live, renamed to j, j is made persistent - all before the deadline.  A redo at
+    time 600 sets k, meets PEXPIREAT k 300 (past: the key is deleted), fails to rename, and
+    there is no j; the live server has j = v for good. *)
+Definition expiry_history : list tev :=
+  [(0, EConn 1);
+   (0, EFrame 1 (cmd [bs "SET"; bs "k"; bs "v"; bs "PX"; bs "300"]) None);
+   (100, EFrame 1 (cmd [bs "RENAME"; bs "k"; bs "j"]) None);
+   (200, EFrame 1 (cmd [bs "PERSIST"; bs "j"]) None)].
+Lemma expiry_unlogged_diverges :
+  get_entry (nth 0 (s_dbs (run_tevs expiry_history)) empty_db) (bs "j") = Some {| e_val := VStr (bs "v"); e_exp := None |} /\
+  get_entry (nth 0 (s_dbs (replay_o 600 (trecs (trace_of expiry_history) dbs0 None))) empty_db) (bs "j") = None /\
+  forallb (fun te => ev_ok (snd te)) expiry_history = true /\
+  fits_b (trace_of expiry_history) dbs0 = true /\
+  (* what fails is the condition on the deadlines: one of them has passed at the time of the redo *)
+  timed_run 600 (trace_of expiry_history) dbs0 = false /\
+  (* before the deadline the same redo is faithful *)
+  timed_run 250 (trace_of expiry_history) dbs0 = true.
+Proof. repeat (apply conj; [vm_compute; reflexivity|]). vm_compute; reflexivity. Qed.
+(** the same class without RENAME: a deadline that was extended while the key was alive *)
+Definition extended_history : list tev :=
+  [(0, EConn 1);
+   (0, EFrame 1 (cmd [bs "SET"; bs "q"; bs "z"; bs "EX"; bs "1"]) None);
+   (500, EFrame 1 (cmd [bs "PEXPIRE"; bs "q"; bs "500000"]) None)].
+Lemma expiry_extended_diverges :
+  get_entry (nth 0 (s_dbs (run_tevs extended_history)) empty_db) (bs "q") = Some {| e_val := VStr (bs "z"); e_exp := Some 500500 |} /\
+  get_entry (nth 0 (s_dbs (replay_o 2000 (trecs (trace_of extended_history) dbs0 None))) empty_db) (bs "q") = None /\
+  timed_run 2000 (trace_of extended_history) dbs0 = false.
+Proof. repeat (apply conj; [vm_compute; reflexivity|]). vm_compute; reflexivity. Qed.
+
+Lemma restart_redo_and_file now s ol :
+  s_dbs (restart_o now s ol) = s_dbs (replay_o now ol) /\ aof_log (restart_o now s ol) = aof_log s.
+Proof. split; reflexivity. Qed.
+Lemma plain_sample :
+  s_dbs (replay_o 7 (trecs (trace_of plain_history) dbs0 None)) = s_dbs (run_tevs plain_history) /\
+  len (aof_log (run_tevs plain_history)) = 15 /\
+  len (d_data (nth 0 (s_dbs (run_tevs plain_history)) empty_db)) = 4.
+Proof.
+  destruct plain_history_ok as (H1 & H2 & H3 & H4 & _).
+  exact (conj (proj2 (replay_all_dbs 7 plain_history H1 H2)) (conj H3 H4)).
+Qed.
+Lemma timed_sample :
+  (forall i k, get_entry (nth i (s_dbs (replay_o day (trecs (trace_of timed_history) dbs0 None))) empty_db) k =
+               get_entry (nth i (s_dbs (run_tevs timed_history)) empty_db) k) /\
+  len (aof_log (run_tevs timed_history)) = 22 /\
+  In [FBulk (bs "SREM"); FBulk (bs "s"); FBulk (bs "a"); FBulk (bs "c")] (aof_log (run_tevs timed_history)) /\
+  In [FBulk (bs "XADD"); FBulk (bs "x"); FBulk (bs "1800-0"); FBulk (bs "f"); FBulk (bs "v")] (aof_log (run_tevs timed_history)) /\
+  In [FBulk (bs "LPOP"); FBulk (bs "l")] (aof_log (run_tevs timed_history)) /\
+  In [FBulk (bs "PEXPIREAT"); FBulk (bs "k"); FBulk (bs "100001000")] (aof_log (run_tevs timed_history)).
+Proof.
+  destruct timed_history_ok as (H1 & H2 & H3 & H4 & H5 & H6 & H7 & H8 & _).
+  exact (conj (proj2 (replay_any_time_b day timed_history H1 H2 H3)) (conj H4 (conj H5 (conj H6 (conj H7 H8))))).
+Qed.
+Lemma restart_sample :
+  forall i k, get_entry (nth i (s_dbs (restart_o day (run_tevs timed_history) (trecs (trace_of timed_history) dbs0 None))) empty_db) k =
+              get_entry (nth i (s_dbs (run_tevs timed_history)) empty_db) k.
+Proof.
+  destruct timed_history_ok as (H1 & H2 & H3 & _).
+  exact (restart_recovers day timed_history H1 H2 (fits_b_run _ _ H3)).
+Qed.
